@@ -19,11 +19,14 @@ Decided (shape of the code, all inputs):
 Declined: JSON validity / round trip, HTML table shapes (third-party Table), streaming -- values.
 """
 import ast
+import builtins
+import copy
 
 from ..core import AnalysisError, norm, short
 from ..callgraph import CallGraph
 from .common import (cfg_of, fkey, conds, has_cond, cond_texts, is_call_to, isinstance_test, returns_of,
                      raises_of, raise_type, check_unbound, stmts_of, walk_body, kwarg, call_tail, call_name)
+from ..astutil import argn, assigned_value
 
 SIMPLE = 'clastic.render.simple'
 TABULAR = 'clastic.render.tabular'
@@ -133,6 +136,1195 @@ def type_confusions(fnode_or_stmts, bytes_names, bytes_exprs=()):
                 yield n, '%s.%s(%s) raises TypeError on Python 3' % (bt, n.func.attr, at)
 
 
+# ---------------------------------------------------------------------------------------------- symbolic paths
+class _St(object):
+    """One path prefix: env (local name -> expression over the *initial* parameter values), the tests taken so far
+    [(key, substituted atom, original node, polarity, decided)], and the terminal ('return', value, stmt) /
+    ('raise', None, stmt) / ('fall', None, None)."""
+    __slots__ = ('env', 'trace', 'term')
+
+    def __init__(self, env=None, trace=None, term=None):
+        self.env, self.trace, self.term = env or {}, trace or [], term
+
+    def fork(self):
+        return _St(dict(self.env), list(self.trace), self.term)
+
+    def free(self):
+        return [c for c in self.trace if not c[4]]
+
+
+def _subst(expr, env):
+    if not env:
+        return copy.deepcopy(expr)
+
+    class S(ast.NodeTransformer):
+        def visit_Name(self, n):
+            if isinstance(n.ctx, ast.Load) and n.id in env:
+                return copy.deepcopy(env[n.id])
+            return n
+
+        def visit_Lambda(self, n):
+            return n
+
+        def _comp(self, n):
+            bound = set(x.id for g in n.generators for x in ast.walk(g.target) if isinstance(x, ast.Name))
+            if bound & set(env):
+                return n
+            return self.generic_visit(n)
+        visit_ListComp = visit_SetComp = visit_DictComp = visit_GeneratorExp = _comp
+    return S().visit(copy.deepcopy(expr))
+
+
+_FLIP = {ast.NotEq: ast.Eq, ast.NotIn: ast.In, ast.IsNot: ast.Is}
+_opaque_n = [0]
+
+
+def _opaque(hint):
+    _opaque_n[0] += 1
+    return ast.Name(id='<%s#%d>' % (hint, _opaque_n[0]), ctx=ast.Load())
+
+
+def _replace_node(expr, old, new):
+    """Copy of expr in which the node ``old`` (by identity) is replaced by a copy of ``new``."""
+    def rec(n):
+        if n is old:
+            return copy.deepcopy(new)
+        if isinstance(n, ast.AST):
+            kw = {}
+            for f, v in ast.iter_fields(n):
+                if isinstance(v, list):
+                    kw[f] = [rec(x) for x in v]
+                else:
+                    kw[f] = rec(v)
+            m = type(n)(**kw)
+            return ast.copy_location(m, n) if hasattr(n, 'lineno') else m
+        return n
+    return rec(expr)
+
+
+def sym_paths(fi, decide, limit=2048, fold=None, resolve=None):
+    """Enumerate the paths of an acyclic function body symbolically.  ``decide(atom)`` -> True / False / None for a
+    test atom whose locals were substituted by their values; None = free (both outcomes are followed).
+    ``resolve(call)`` -> FuncInfo of a callee whose body is to be followed (its paths are spliced in, parameters bound
+    to the argument expressions) or None (the call stays an opaque expression).  Loops, try and with statements are
+    outside the modelled subset (AnalysisError; a callee using them is simply not followed)."""
+    ident = lambda x: x
+    fold_ = fold or ident
+    opaque_calls = set()
+    depth = [0]
+
+    def first_call(expr):
+        todo = [expr]
+        while todo:
+            n = todo.pop(0)
+            if isinstance(n, ast.Call) and id(n) not in opaque_calls:
+                if resolve(n) is not None:
+                    return n
+                opaque_calls.add(id(n))
+            if isinstance(n, (ast.Lambda, ast.ListComp, ast.SetComp, ast.DictComp, ast.GeneratorExp)):
+                continue
+            if isinstance(n, ast.BoolOp):
+                todo.insert(0, n.values[0])
+                continue
+            if isinstance(n, ast.IfExp):
+                todo.insert(0, n.test)
+                continue
+            todo = list(ast.iter_child_nodes(n)) + todo
+        return None
+
+    def bind_call(callee, call):
+        a = callee.node.args
+        if a.vararg or a.kwarg or any(isinstance(x, ast.Starred) for x in call.args) or any(k.arg is None for k in call.keywords):
+            return None
+        params = [p.arg for p in a.posonlyargs + a.args]
+        defaults = dict(zip(params[len(params) - len(a.defaults):], a.defaults)) if a.defaults else {}
+        for p, d in zip(a.kwonlyargs, a.kw_defaults):
+            if d is not None:
+                defaults[p.arg] = d
+        env = {}
+        static = any(isinstance(d, ast.Name) and d.id == 'staticmethod' for d in callee.node.decorator_list)
+        if callee.cls is not None and not static:
+            if not (isinstance(call.func, ast.Attribute) and params):
+                return None
+            recv = params.pop(0)
+            if not (isinstance(call.func.value, ast.Name) and call.func.value.id == recv):
+                env[recv] = call.func.value
+        if len(call.args) > len(params):
+            return None
+        for p, v in zip(params, call.args):
+            env[p] = v
+        for k in call.keywords:
+            if k.arg in env or k.arg not in params + [x.arg for x in a.kwonlyargs]:
+                return None
+            env[k.arg] = k.value
+        for p in params + [x.arg for x in a.kwonlyargs]:
+            if p not in env:
+                if p not in defaults:
+                    return None
+                env[p] = defaults[p]
+        return env
+
+    def expand(expr, st):
+        """[(state, expr with the followed calls replaced by their symbolic results)]; a state whose callee raised
+        carries the terminal."""
+        if resolve is None or expr is None:
+            return [(st, expr)]
+        call = first_call(expr)
+        if call is None:
+            return [(st, expr)]
+        callee = resolve(call)
+        env = bind_call(callee, call) if depth[0] < 3 else None
+        results = None
+        if env is not None:
+            depth[0] += 1
+            try:
+                results = run_block(callee.node.body, [_St(env, list(st.trace))])
+            except AnalysisError:
+                results = None
+            finally:
+                depth[0] -= 1
+        if results is None:
+            opaque_calls.add(id(call))
+            return expand(expr, st)
+        out = []
+        for r in results:
+            st2 = _St(dict(st.env), r.trace, None)
+            if r.term is not None and r.term[0] == 'raise':
+                st2.term = r.term
+                out.append((st2, None))
+                continue
+            val = r.term[1] if r.term is not None and r.term[0] == 'return' and r.term[1] is not None else ast.Constant(value=None)
+
+            new = copy.deepcopy(val) if expr is call else _replace_node(expr, call, val)
+            out.extend(expand(new, st2))
+        return out
+
+    def split(test, st, subst=True):
+        if isinstance(test, ast.UnaryOp) and isinstance(test.op, ast.Not):
+            return [(s, not r) for s, r in split(test.operand, st, subst)]
+        if isinstance(test, ast.BoolOp):
+            is_and = isinstance(test.op, ast.And)
+            cur = [(st, is_and)]
+            for v in test.values:
+                nxt = []
+                for s, r in cur:
+                    if r is not is_and or s.term is not None:
+                        nxt.append((s, r))
+                    else:
+                        nxt.extend(split(v, s, subst))
+                cur = nxt
+            return cur
+        if isinstance(test, ast.IfExp):
+            out = []
+            for s, r in split(test.test, st, subst):
+                if s.term is not None:
+                    out.append((s, r))
+                else:
+                    out.extend(split(test.body if r else test.orelse, s, subst))
+            return out
+        atom = _subst(test, st.env) if subst else test
+        if subst:
+            out = []
+            for s2, a2 in expand(atom, st):
+                if s2.term is not None:
+                    out.append((s2, True))
+                else:
+                    out.extend(split_atom(fold_(a2), test, s2))
+            return out
+        return split_atom(atom, test, st)
+
+    def split_atom(atom, test, st):
+        if isinstance(atom, (ast.BoolOp, ast.IfExp)) or (isinstance(atom, ast.UnaryOp) and isinstance(atom.op, ast.Not)):
+            return split(atom, st, False)
+        inv = False
+        if isinstance(atom, ast.Compare) and len(atom.ops) == 1 and type(atom.ops[0]) in _FLIP:
+            atom = ast.Compare(left=atom.left, ops=[_FLIP[type(atom.ops[0])]()], comparators=atom.comparators)
+            inv = True
+        d = decide(atom)
+        key = norm(atom)
+        if d is None:
+            for c in st.trace:
+                if c[0] == key:
+                    d = c[3]
+                    break
+        if d is not None:
+            st.trace.append((key, atom, test, d, True))
+            return [(st, (not d) if inv else d)]
+        a, b = st, st.fork()
+        a.trace.append((key, atom, test, True, False))
+        b.trace.append((key, atom, test, False, False))
+        return [(a, not inv), (b, inv)]
+
+    def bind(st, target, value):
+        if isinstance(target, ast.Name):
+            st.env[target.id] = value
+        elif isinstance(target, (ast.Tuple, ast.List)):
+            if isinstance(value, (ast.Tuple, ast.List)) and len(value.elts) == len(target.elts) and \
+                    not any(isinstance(e, ast.Starred) for e in list(value.elts) + list(target.elts)):
+                for t, v in zip(target.elts, value.elts):
+                    bind(st, t, v)
+            else:
+                for n in ast.walk(target):
+                    if isinstance(n, ast.Name):
+                        st.env[n.id] = _opaque(n.id)
+        # attribute / subscript stores do not touch the locals
+
+    def run_block(stmts, states):
+        for s in stmts:
+            nxt = []
+            for st in states:
+                if st.term is not None:
+                    nxt.append(st)
+                else:
+                    nxt.extend(run_stmt(s, st))
+            states = nxt
+            if len(states) > limit:
+                raise AnalysisError('%s: more than %d symbolic paths' % (fi.qualname, limit))
+        return states
+
+    def values(expr, st):
+        """[(state, substituted value)] of an expression evaluated in state st (followed calls spliced in)."""
+        return expand(_subst(expr, st.env), st)
+
+    def run_stmt(s, st):
+        if isinstance(s, (ast.Expr, ast.Pass, ast.Import, ast.ImportFrom, ast.Assert, ast.Global, ast.Nonlocal, ast.Delete)):
+            return [st]
+        if isinstance(s, (ast.Assign, ast.AnnAssign)):
+            if s.value is None:
+                return [st]
+            out = []
+            for s2, v in values(s.value, st):
+                if s2.term is None:
+                    for t in (s.targets if isinstance(s, ast.Assign) else [s.target]):
+                        bind(s2, t, v)
+                out.append(s2)
+            return out
+        if isinstance(s, ast.AugAssign):
+            if isinstance(s.target, ast.Name):
+                st.env[s.target.id] = _subst(ast.BinOp(left=ast.Name(id=s.target.id, ctx=ast.Load()), op=s.op, right=s.value), st.env)
+            return [st]
+        if isinstance(s, ast.Return):
+            if s.value is None:
+                st.term = ('return', None, s)
+                return [st]
+            out = []
+            for s2, v in values(s.value, st):
+                if s2.term is None:
+                    s2.term = ('return', fold_(v), s)
+                out.append(s2)
+            return out
+        if isinstance(s, ast.Raise):
+            st.term = ('raise', _subst(s.exc, st.env) if s.exc is not None else None, s)
+            return [st]
+        if isinstance(s, ast.If):
+            out = []
+            for s2, r in split(s.test, st):
+                out.extend(run_block(s.body if r else s.orelse, [s2]))
+            return out
+        raise AnalysisError('%s: statement %s is outside the modelled subset of the path enumeration'
+                            % (fi.qualname, type(s).__name__))
+
+    out = run_block(fi.node.body, [_St()])
+    for st in out:
+        if st.term is None:
+            st.term = ('fall', None, None)
+    return out
+
+
+def follow_resolver(repo, fi, keep=()):
+    """resolve(call) for sym_paths: plain functions / methods of the analysed tree named directly (f(..), self.m(..),
+    cls.m(..), Class.m(..)); names in ``keep`` stay opaque."""
+    def resolve(call):
+        f = call.func
+        m = None
+        try:
+            if isinstance(f, ast.Attribute) and isinstance(f.value, ast.Name):
+                ci = None
+                if f.value.id in ('self', 'cls') and fi.cls is not None:
+                    ci = fi.cls
+                elif f.value.id in fi.mod.classes:
+                    ci = fi.mod.classes[f.value.id]
+                if ci is not None:
+                    m = repo.find_method(ci, f.attr)
+                    if m is not None and f.value.id not in ('self', 'cls') and not any(
+                            isinstance(d, ast.Name) and d.id in ('staticmethod', 'classmethod') for d in m.node.decorator_list):
+                        m = None
+            elif isinstance(f, ast.Name):
+                kind, mm, obj = repo.resolve(fi.mod, f.id)
+                if kind == 'func':
+                    m = obj
+        except Exception:
+            m = None
+        if m is None or m.mod.external or m.name in keep or m is fi or not isinstance(m.node, ast.FunctionDef):
+            return None
+        if any(isinstance(d, ast.Name) and d.id == 'property' for d in m.node.decorator_list):
+            return None
+        for n in ast.walk(m.node):
+            if isinstance(n, (ast.Yield, ast.YieldFrom, ast.Await)):
+                return None
+        return m
+    return resolve
+
+
+# ---------------------------------------------------------------------------------------------- abstract result types
+_COLLECTION_ABCS = ('Sized', 'Collection', 'Sequence', 'MutableSequence', 'Mapping', 'MutableMapping', 'Set', 'MutableSet',
+                    'ByteString', 'dict', 'list', 'tuple', 'set', 'frozenset', 'bytearray', 'OrderedDict', 'defaultdict',
+                    'deque', 'ItemsView', 'KeysView', 'ValuesView', 'MappingView')
+_NOT_TEXT = ('Mapping', 'MutableMapping', 'Set', 'MutableSet', 'MutableSequence', 'dict', 'list', 'tuple', 'set', 'frozenset',
+             'bytearray', 'int', 'float', 'bool', 'complex', 'type', 'OrderedDict', 'defaultdict', 'deque', 'Generator',
+             'Iterator', 'Callable', 'NoneType')
+_TEXT_ABCS = ('Sized', 'Iterable', 'Container', 'Collection', 'Sequence', 'Reversible', 'Hashable', 'object')
+
+
+def _isa(t, cname):
+    """Is a value of abstract type t ('str' | 'bytes' | 'sized' = Sized but neither str nor bytes | 'unsized') an
+    instance of the class called cname?  True / False / None (depends on the value)."""
+    if cname == 'object':
+        return True
+    if t in ('str', 'bytes'):
+        if cname in ('str', 'bytes'):
+            return cname == t
+        if cname == 'ByteString':
+            return t == 'bytes'
+        if cname in _TEXT_ABCS:
+            return True
+        if cname in _NOT_TEXT:
+            return False
+        return None
+    if t == 'sized':
+        if cname in ('str', 'bytes', 'int', 'float', 'bool', 'complex', 'NoneType', 'Generator'):
+            return False
+        if cname == 'Sized':
+            return True
+        return None
+    if t == 'unsized':
+        if cname in ('str', 'bytes') or cname in _COLLECTION_ABCS:
+            return False
+        return None
+    return None
+
+
+def _class_names(mod, expr, depth=0):
+    """Class names (last component, import aliases and module-level aliases resolved) of an isinstance() class spec."""
+    if isinstance(expr, ast.Tuple):
+        out = []
+        for e in expr.elts:
+            sub = _class_names(mod, e, depth)
+            if sub is None:
+                return None
+            out.extend(sub)
+        return out
+    if isinstance(expr, ast.Attribute):
+        return [expr.attr]
+    if isinstance(expr, ast.Name):
+        if expr.id in mod.imports:
+            modname, attr = mod.imports[expr.id]
+            return [attr or expr.id]
+        vals = mod.assigns.get(expr.id)
+        if vals and len(vals) == 1 and isinstance(vals[0], (ast.Name, ast.Tuple, ast.Attribute)) and depth < 4 and \
+                expr.id not in mod.classes:
+            return _class_names(mod, vals[0], depth + 1)
+        return [expr.id]
+    return None
+
+
+def _abs_type(expr, ctx, T):
+    """Abstract type of a substituted expression when the endpoint result (parameter ctx) has abstract type T."""
+    if isinstance(expr, ast.Name):
+        return T if expr.id == ctx else None
+    if isinstance(expr, ast.Constant):
+        return 'str' if isinstance(expr.value, str) else ('bytes' if isinstance(expr.value, bytes) else None)
+    if isinstance(expr, ast.JoinedStr):
+        return 'str'
+    if isinstance(expr, ast.Subscript) and isinstance(expr.slice, ast.Slice):
+        b = _abs_type(expr.value, ctx, T)
+        return b if b in ('str', 'bytes') else None
+    if isinstance(expr, ast.BinOp):
+        l = _abs_type(expr.left, ctx, T)
+        if isinstance(expr.op, ast.Mod) and l in ('str', 'bytes'):
+            return l
+        if isinstance(expr.op, ast.Add) and l in ('str', 'bytes') and l == _abs_type(expr.right, ctx, T):
+            return l
+        return None
+    if isinstance(expr, ast.Call):
+        f = expr.func
+        if isinstance(f, ast.Attribute):
+            b = _abs_type(f.value, ctx, T)
+            if f.attr == 'encode':
+                return 'bytes' if b == 'str' else ('error' if b == 'bytes' else None)
+            if f.attr == 'decode':
+                return 'str' if b == 'bytes' else ('error' if b == 'str' else None)
+            if f.attr in ('strip', 'lstrip', 'rstrip', 'lower', 'upper', 'format', 'replace', 'join') and b in ('str', 'bytes'):
+                return b
+            return None
+        if isinstance(f, ast.Name):
+            if f.id in ('str', 'repr', 'ascii', 'format'):
+                return 'str'
+            if f.id == 'bytes' and expr.args and _abs_type(expr.args[0], ctx, T) == 'bytes':
+                return 'bytes'
+    return None
+
+
+def _type_errors(expr, ctx, T):
+    return [n for n in ast.walk(expr) if isinstance(n, ast.Call) and _abs_type(n, ctx, T) == 'error'] if expr is not None else []
+
+
+def _decide_typed(mod, ctx, T):
+    def decide(atom):
+        if isinstance(atom, ast.Constant):
+            return bool(atom.value)
+        if isinstance(atom, ast.Call) and isinstance(atom.func, ast.Name) and atom.func.id == 'isinstance' and len(atom.args) == 2 \
+                and not atom.keywords:
+            t = _abs_type(atom.args[0], ctx, T)
+            if t not in ('str', 'bytes', 'sized', 'unsized'):
+                return None
+            names = _class_names(mod, atom.args[1])
+            if not names:
+                return None
+            rs = [_isa(t, n) for n in names]
+            if any(r is True for r in rs):
+                return True
+            if all(r is False for r in rs):
+                return False
+        if isinstance(atom, ast.Compare) and len(atom.ops) == 1 and isinstance(atom.ops[0], (ast.Is, ast.Eq)) and \
+                isinstance(atom.comparators[0], ast.Constant) and atom.comparators[0].value is None:
+            # ``x is None`` (``is not`` arrives flipped): text is never None
+            if isinstance(atom.left, ast.Constant):
+                return atom.left.value is None
+            if _abs_type(atom.left, ctx, T) in ('str', 'bytes', 'sized'):
+                return False
+        return None
+    return decide
+
+
+def _sniff_kind(atom):
+    """('gj', arg) for a _guess_json(arg) call, ('html', searched value) for the <html sniff, else (None, None)."""
+    if isinstance(atom, ast.Call) and call_tail(atom) == '_guess_json' and (atom.args or atom.keywords):
+        return 'gj', atom.args[0] if atom.args else atom.keywords[0].value
+    needle = hay = None
+    if isinstance(atom, ast.Compare) and len(atom.ops) == 1:
+        if isinstance(atom.ops[0], ast.In):
+            needle, hay = atom.left, atom.comparators[0]
+        elif isinstance(atom.left, ast.Call) and isinstance(atom.left.func, ast.Attribute) and atom.left.func.attr == 'find' \
+                and atom.left.args and isinstance(atom.ops[0], (ast.Eq, ast.GtE, ast.Gt)):
+            # v.find(b'<html') == -1 (flipped from !=) is the *negation*: not modelled, keep it free
+            if isinstance(atom.ops[0], (ast.GtE, ast.Gt)):
+                needle, hay = atom.left.args[0], atom.left.func.value
+    if needle is not None and isinstance(needle, ast.Constant) and isinstance(needle.value, (bytes, str)):
+        txt = needle.value.lower() if isinstance(needle.value, str) else needle.value.lower().decode('latin-1')
+        if 'html' in txt:
+            while isinstance(hay, ast.Subscript) and isinstance(hay.slice, ast.Slice):
+                hay = hay.value
+            return 'html', hay
+    return None, None
+
+
+# ---------------------------------------------------------------------------------------------- concrete evaluation
+class _Unsupported(Exception):
+    pass
+
+
+class _PyRaise(Exception):
+    def __init__(self, exc):
+        Exception.__init__(self, repr(exc))
+        self.exc = exc
+
+
+_PURE_BUILTINS = dict((n, getattr(builtins, n)) for n in (
+    'len', 'bool', 'any', 'all', 'tuple', 'list', 'set', 'frozenset', 'dict', 'bytes', 'bytearray', 'ord', 'chr', 'min', 'max',
+    'zip', 'enumerate', 'sorted', 'range', 'str', 'int', 'isinstance', 'reversed', 'sum', 'abs', 'repr', 'iter', 'next', 'map',
+    'filter', 'memoryview', 'type', 'object', 'float', 'slice',
+    'Exception', 'TypeError', 'ValueError', 'IndexError', 'KeyError', 'AttributeError', 'LookupError', 'UnicodeError',
+    'UnicodeDecodeError', 'UnicodeEncodeError', 'StopIteration', 'ArithmeticError', 'ZeroDivisionError', 'BaseException'))
+_PURE_TYPES = (bytes, str, tuple, list, dict, set, frozenset, int, bool, bytearray, type(None), float)
+_CMP = {ast.Eq: lambda a, b: a == b, ast.NotEq: lambda a, b: a != b, ast.Lt: lambda a, b: a < b, ast.LtE: lambda a, b: a <= b,
+        ast.Gt: lambda a, b: a > b, ast.GtE: lambda a, b: a >= b, ast.Is: lambda a, b: a is b, ast.IsNot: lambda a, b: a is not b,
+        ast.In: lambda a, b: a in b, ast.NotIn: lambda a, b: a not in b}
+_BIN = {ast.Add: lambda a, b: a + b, ast.Sub: lambda a, b: a - b, ast.Mult: lambda a, b: a * b, ast.Mod: lambda a, b: a % b,
+        ast.FloorDiv: lambda a, b: a // b, ast.BitAnd: lambda a, b: a & b, ast.BitOr: lambda a, b: a | b,
+        ast.BitXor: lambda a, b: a ^ b, ast.LShift: lambda a, b: a << b, ast.RShift: lambda a, b: a >> b}
+
+
+class _Interp(object):
+    """Evaluates a *pure* function of the analysed tree on concrete arguments by walking its AST: constants, locals,
+    module / class level constants, operators, subscripts, methods of builtin value types, comprehensions, if / for /
+    while / try.  Nothing of the analysed tree is imported or executed by Python itself; an operation outside this
+    subset raises _Unsupported, an exception the analysed code would raise surfaces as _PyRaise."""
+
+    def __init__(self, repo, budget=20000):
+        self.repo, self.budget = repo, budget
+
+    # -- statements ------------------------------------------------------------------------------------------
+    def block(self, stmts, env, fi, depth):
+        for s in stmts:
+            sig = self.stmt(s, env, fi, depth)
+            if sig is not None:
+                return sig
+        return None
+
+    def assign(self, target, value, env, fi, depth):
+        if isinstance(target, ast.Name):
+            env[target.id] = value
+        elif isinstance(target, (ast.Tuple, ast.List)):
+            if any(isinstance(e, ast.Starred) for e in target.elts):
+                raise _Unsupported('starred target')
+            try:
+                vals = list(value)
+            except TypeError as e:
+                raise _PyRaise(e)
+            if len(vals) != len(target.elts):
+                raise _PyRaise(ValueError('unpack'))
+            for t, v in zip(target.elts, vals):
+                self.assign(t, v, env, fi, depth)
+        elif isinstance(target, ast.Subscript):
+            obj = self.ev(target.value, env, fi, depth)
+            if not isinstance(obj, (list, dict)):
+                raise _Unsupported('subscript store')
+            obj[self.ev(target.slice, env, fi, depth)] = value
+        else:
+            raise _Unsupported('assignment target')
+
+    def stmt(self, s, env, fi, depth):
+        self.budget -= 1
+        if self.budget < 0:
+            raise _Unsupported('evaluation budget exhausted')
+        ev = lambda e: self.ev(e, env, fi, depth)
+        if isinstance(s, ast.Expr):
+            if not isinstance(s.value, ast.Constant):
+                ev(s.value)
+            return None
+        if isinstance(s, ast.Pass):
+            return None
+        if isinstance(s, ast.Return):
+            return ('return', ev(s.value) if s.value is not None else None)
+        if isinstance(s, ast.Assign):
+            v = ev(s.value)
+            for t in s.targets:
+                self.assign(t, v, env, fi, depth)
+            return None
+        if isinstance(s, ast.AnnAssign):
+            if s.value is not None:
+                self.assign(s.target, ev(s.value), env, fi, depth)
+            return None
+        if isinstance(s, ast.AugAssign):
+            if not isinstance(s.target, ast.Name) or type(s.op) not in _BIN:
+                raise _Unsupported('augmented assignment')
+            env[s.target.id] = self.op(_BIN[type(s.op)], ev(s.target.__class__(id=s.target.id, ctx=ast.Load())), ev(s.value))
+            return None
+        if isinstance(s, ast.If):
+            return self.block(s.body if ev(s.test) else s.orelse, env, fi, depth)
+        if isinstance(s, ast.For):
+            it = ev(s.iter)
+            try:
+                it = iter(it)
+            except TypeError as e:
+                raise _PyRaise(e)
+            broke = False
+            for v in it:
+                self.assign(s.target, v, env, fi, depth)
+                sig = self.block(s.body, env, fi, depth)
+                if sig is not None:
+                    if sig[0] == 'break':
+                        broke = True
+                        break
+                    if sig[0] == 'continue':
+                        continue
+                    return sig
+            if not broke:
+                return self.block(s.orelse, env, fi, depth)
+            return None
+        if isinstance(s, ast.While):
+            n = 0
+            broke = False
+            while ev(s.test):
+                n += 1
+                if n > 2000:
+                    raise _Unsupported('loop bound')
+                sig = self.block(s.body, env, fi, depth)
+                if sig is not None:
+                    if sig[0] == 'break':
+                        broke = True
+                        break
+                    if sig[0] == 'continue':
+                        continue
+                    return sig
+            if not broke:
+                return self.block(s.orelse, env, fi, depth)
+            return None
+        if isinstance(s, ast.Break):
+            return ('break',)
+        if isinstance(s, ast.Continue):
+            return ('continue',)
+        if isinstance(s, ast.Raise):
+            if s.exc is None:
+                raise _Unsupported('bare raise')
+            e = ev(s.exc)
+            if isinstance(e, type) and issubclass(e, BaseException):
+                e = e()
+            if not isinstance(e, BaseException):
+                raise _Unsupported('raise of a non-exception')
+            raise _PyRaise(e)
+        if isinstance(s, ast.Try):
+            if s.finalbody:
+                raise _Unsupported('finally')
+            try:
+                sig = self.block(s.body, env, fi, depth)
+            except _PyRaise as pr:
+                for h in s.handlers:
+                    if h.type is None:
+                        match = True
+                    else:
+                        ht = self.ev(h.type, env, fi, depth)
+                        try:
+                            match = isinstance(pr.exc, ht)
+                        except TypeError:
+                            raise _Unsupported('except clause')
+                    if match:
+                        if h.name:
+                            env[h.name] = pr.exc
+                        return self.block(h.body, env, fi, depth)
+                raise
+            if sig is not None:
+                return sig
+            return self.block(s.orelse, env, fi, depth)
+        if isinstance(s, ast.Assert):
+            if not ev(s.test):
+                raise _PyRaise(AssertionError())
+            return None
+        raise _Unsupported('statement %s' % type(s).__name__)
+
+    # -- expressions -----------------------------------------------------------------------------------------
+    def op(self, f, *a):
+        try:
+            return f(*a)
+        except _Unsupported:
+            raise
+        except _PyRaise:
+            raise
+        except Exception as e:
+            raise _PyRaise(e)
+
+    def class_const(self, ci, attr, depth):
+        dc, v = self.repo.class_attr(ci, attr)
+        if dc is None:
+            raise _Unsupported('attribute %s' % attr)
+        if isinstance(v, (ast.FunctionDef, ast.AsyncFunctionDef)):
+            return ('<function>', dc.methods[attr])
+        if v is None:
+            raise _Unsupported('attribute %s' % attr)
+        return self.ev(v, {}, None, depth, mod=dc.mod)
+
+    def ev(self, e, env, fi, depth, mod=None):
+        self.budget -= 1
+        if self.budget < 0:
+            raise _Unsupported('evaluation budget exhausted')
+        mod = mod or (fi.mod if fi is not None else None)
+        ev = lambda x: self.ev(x, env, fi, depth, mod)
+        if isinstance(e, ast.Constant):
+            return e.value
+        if isinstance(e, ast.Name):
+            if e.id in env:
+                return env[e.id]
+            kind, m, obj = self.repo.resolve(mod, e.id)
+            if kind == 'func':
+                return ('<function>', obj)
+            if kind == 'class':
+                return ('<class>', obj)
+            if kind == 'value':
+                vals = [v for v in obj if v is not None]
+                if len(vals) == 1 and len(obj) == 1 and not isinstance(vals[0], (ast.FunctionDef, ast.ClassDef)):
+                    return self.ev(vals[0], {}, None, depth, mod=m)
+                raise _Unsupported('module-level name %s' % e.id)
+            if kind == 'unknown' and e.id in _PURE_BUILTINS:
+                return _PURE_BUILTINS[e.id]
+            raise _Unsupported('name %s' % e.id)
+        if isinstance(e, ast.Tuple):
+            return tuple(ev(x) for x in e.elts)
+        if isinstance(e, ast.List):
+            return [ev(x) for x in e.elts]
+        if isinstance(e, ast.Set):
+            return self.op(lambda: set(ev(x) for x in e.elts))
+        if isinstance(e, ast.Dict):
+            if any(k is None for k in e.keys):
+                raise _Unsupported('dict unpacking')
+            return self.op(lambda: dict((ev(k), ev(v)) for k, v in zip(e.keys, e.values)))
+        if isinstance(e, ast.Subscript):
+            v = ev(e.value)
+            if not isinstance(v, _PURE_TYPES):
+                raise _Unsupported('subscript of %s' % type(v).__name__)
+            if isinstance(e.slice, ast.Slice):
+                sl = slice(*[ev(x) if x is not None else None for x in (e.slice.lower, e.slice.upper, e.slice.step)])
+                return self.op(lambda: v[sl])
+            i = ev(e.slice)
+            return self.op(lambda: v[i])
+        if isinstance(e, ast.Compare):
+            left = ev(e.left)
+            for o, c in zip(e.ops, e.comparators):
+                right = ev(c)
+                if not self.op(_CMP[type(o)], left, right):
+                    return False
+                left = right
+            return True
+        if isinstance(e, ast.BoolOp):
+            v = None
+            for x in e.values:
+                v = ev(x)
+                if isinstance(e.op, ast.And) and not v:
+                    return v
+                if isinstance(e.op, ast.Or) and v:
+                    return v
+            return v
+        if isinstance(e, ast.UnaryOp):
+            v = ev(e.operand)
+            if isinstance(e.op, ast.Not):
+                return not v
+            if isinstance(e.op, ast.USub):
+                return self.op(lambda: -v)
+            if isinstance(e.op, ast.UAdd):
+                return self.op(lambda: +v)
+            return self.op(lambda: ~v)
+        if isinstance(e, ast.BinOp):
+            if type(e.op) not in _BIN:
+                raise _Unsupported('operator')
+            return self.op(_BIN[type(e.op)], ev(e.left), ev(e.right))
+        if isinstance(e, ast.IfExp):
+            return ev(e.body) if ev(e.test) else ev(e.orelse)
+        if isinstance(e, ast.NamedExpr):
+            v = ev(e.value)
+            env[e.target.id] = v
+            return v
+        if isinstance(e, (ast.ListComp, ast.SetComp, ast.GeneratorExp, ast.DictComp)):
+            out = []
+            inner = dict(env)
+
+            def gen(i):
+                if i == len(e.generators):
+                    if isinstance(e, ast.DictComp):
+                        out.append((self.ev(e.key, inner, fi, depth, mod), self.ev(e.value, inner, fi, depth, mod)))
+                    else:
+                        out.append(self.ev(e.elt, inner, fi, depth, mod))
+                    return
+                g = e.generators[i]
+                if g.is_async:
+                    raise _Unsupported('async comprehension')
+                it = self.ev(g.iter, inner, fi, depth, mod)
+                for v in self.op(lambda: list(it)):
+                    self.assign(g.target, v, inner, fi, depth)
+                    if all(self.ev(c, inner, fi, depth, mod) for c in g.ifs):
+                        gen(i + 1)
+            gen(0)
+            if isinstance(e, ast.SetComp):
+                return self.op(lambda: set(out))
+            if isinstance(e, ast.DictComp):
+                return self.op(lambda: dict(out))
+            return out
+        if isinstance(e, ast.Attribute):
+            v = ev(e.value)
+            if isinstance(v, tuple) and len(v) == 2 and v[0] in ('<receiver>', '<class>'):
+                return self.class_const(v[1], e.attr, depth)
+            raise _Unsupported('attribute %s' % e.attr)
+        if isinstance(e, ast.Call):
+            if any(isinstance(a, ast.Starred) for a in e.args) or any(k.arg is None for k in e.keywords):
+                raise _Unsupported('star arguments')
+            f = e.func
+            if isinstance(f, ast.Attribute):
+                recv = ev(f.value)
+                if isinstance(recv, tuple) and len(recv) == 2 and recv[0] in ('<receiver>', '<class>'):
+                    target = self.class_const(recv[1], f.attr, depth)
+                    if not (isinstance(target, tuple) and target[0] == '<function>'):
+                        raise _Unsupported('call of attribute %s' % f.attr)
+                    callee = target[1]
+                    args = [ev(a) for a in e.args]
+                    if e.keywords:
+                        raise _Unsupported('keyword call of a tree function')
+                    static = any(isinstance(d, ast.Name) and d.id == 'staticmethod' for d in callee.node.decorator_list)
+                    if not static:
+                        args = [recv] + args
+                        return self._call_fn(callee, args, depth, bound=True)
+                    return self._call_fn(callee, args, depth)
+                if not isinstance(recv, _PURE_TYPES) or f.attr.startswith('_'):
+                    raise _Unsupported('method %s of %s' % (f.attr, type(recv).__name__))
+                args = [ev(a) for a in e.args]
+                kw = dict((k.arg, ev(k.value)) for k in e.keywords)
+                r = self.op(lambda: getattr(recv, f.attr)(*args, **kw))
+                if isinstance(r, (type({}.keys()), type({}.values()), type({}.items()))):
+                    r = list(r)
+                return r
+            fn = ev(f)
+            args = [ev(a) for a in e.args]
+            if isinstance(fn, tuple) and len(fn) == 2 and fn[0] == '<function>':
+                if e.keywords:
+                    raise _Unsupported('keyword call of a tree function')
+                return self._call_fn(fn[1], args, depth)
+            if any(fn is b for b in _PURE_BUILTINS.values()):
+                kw = dict((k.arg, ev(k.value)) for k in e.keywords)
+                r = self.op(lambda: fn(*args, **kw))
+                if isinstance(r, (type(iter(())), type(zip()), type(enumerate(())), type(map(len, ())), type(filter(None, ())),
+                                  type(reversed(())), type(iter([])), type(iter(b'')), type(iter('')), range)):
+                    r = self.op(lambda: list(r))
+                return r
+            raise _Unsupported('call of %s' % norm(f))
+        raise _Unsupported('expression %s' % type(e).__name__)
+
+    def _call_fn(self, callee, args, depth, bound=False):
+        node = callee.node
+        if any(isinstance(n, (ast.Yield, ast.YieldFrom, ast.Await)) for n in ast.walk(node)):
+            raise _Unsupported('generator')
+        if bound:
+            # receiver already first in args: evaluate as a plain function
+            saved = callee.cls
+            a = node.args
+            params = [p.arg for p in a.posonlyargs + a.args]
+            if a.vararg or a.kwarg or a.kwonlyargs or len(args) > len(params):
+                raise _Unsupported('signature')
+            defaults = dict(zip(params[len(params) - len(a.defaults):], a.defaults)) if a.defaults else {}
+            env = dict(zip(params, args))
+            for p in params[len(args):]:
+                if p not in defaults:
+                    raise _PyRaise(TypeError('missing argument'))
+                env[p] = self.ev(defaults[p], {}, callee, depth + 1)
+            sig = self.block(node.body, env, callee, depth + 1)
+            return sig[1] if sig is not None and sig[0] == 'return' else None
+        return self.call_static(callee, args, depth + 1)
+
+    def call_static(self, fi, args, depth):
+        a = fi.node.args
+        params = [p.arg for p in a.posonlyargs + a.args]
+        if a.vararg or a.kwarg or a.kwonlyargs or len(args) > len(params):
+            raise _Unsupported('signature')
+        defaults = dict(zip(params[len(params) - len(a.defaults):], a.defaults)) if a.defaults else {}
+        env = dict(zip(params, args))
+        for p in params[len(args):]:
+            if p not in defaults:
+                raise _PyRaise(TypeError('missing argument'))
+            env[p] = self.ev(defaults[p], {}, fi, depth)
+        if depth > 6:
+            raise _Unsupported('call depth')
+        sig = self.block(fi.node.body, env, fi, depth)
+        return sig[1] if sig is not None and sig[0] == 'return' else None
+
+
+def eval_expr(repo, fi, expr, env):
+    """('value', v) | ('raise', name) | ('unsupported', why) for an expression over the given concrete locals (``self`` /
+    ``cls`` stand for the class of fi)."""
+    it = _Interp(repo)
+    env = dict(env)
+    if fi.cls is not None:
+        env.setdefault('self', ('<receiver>', fi.cls))
+        env.setdefault('cls', ('<class>', fi.cls))
+    try:
+        return ('value', it.ev(expr, env, fi, 0))
+    except _PyRaise as pr:
+        return ('raise', type(pr.exc).__name__)
+    except _Unsupported as u:
+        return ('unsupported', str(u))
+    except RecursionError:
+        return ('unsupported', 'recursion')
+
+
+def eval_pure(repo, fi, args):
+    """('value', v) | ('raise', exception class name) | ('unsupported', why) for fi(*args) (receiver supplied
+    automatically for methods / classmethods)."""
+    it = _Interp(repo)
+    try:
+        kinds = [d.id for d in fi.node.decorator_list if isinstance(d, ast.Name)]
+        if fi.cls is not None and 'staticmethod' not in kinds:
+            recv = ('<class>', fi.cls) if 'classmethod' in kinds else ('<receiver>', fi.cls)
+            return ('value', it._call_fn(fi, [recv] + list(args), 0, bound=True))
+        return ('value', it.call_static(fi, list(args), 0))
+    except _PyRaise as pr:
+        return ('raise', type(pr.exc).__name__)
+    except _Unsupported as u:
+        return ('unsupported', str(u))
+    except RecursionError:
+        return ('unsupported', 'recursion')
+
+
+# ---------------------------------------------------------------------------------------------- small helpers
+def _fold_names(repo, fi, expr):
+    """Replace names of str / bytes / int constants (module level, class level through self / cls / the class) in an
+    already substituted expression by the constants: ``_HTML_MARKER in payload[:self._sniff_len]``."""
+    params = set(fi.params())
+
+    class F(ast.NodeTransformer):
+        def visit_Name(self, n):
+            if isinstance(n.ctx, ast.Load) and n.id not in params and not n.id.startswith('<'):
+                try:
+                    v = repo.try_fold(n, fi.mod)
+                except Exception:
+                    v = None
+                if isinstance(v, (str, bytes)) or (isinstance(v, int) and not isinstance(v, bool)):
+                    return ast.copy_location(ast.Constant(value=v), n)
+            return n
+
+        def visit_Attribute(self, n):
+            if isinstance(n.value, ast.Name) and (n.value.id in ('self', 'cls') or n.value.id in fi.mod.classes):
+                v = _fold_const(repo, fi, n)
+                if isinstance(v, (str, bytes)) or (isinstance(v, int) and not isinstance(v, bool)):
+                    return ast.copy_location(ast.Constant(value=v), n)
+                return n
+            return self.generic_visit(n)
+
+        def visit_Lambda(self, n):
+            return n
+    return F().visit(expr)
+
+
+def _is_response(mod, call):
+    if not isinstance(call, ast.Call):
+        return False
+    if call_tail(call) == 'Response':
+        return True
+    return isinstance(call.func, ast.Name) and mod.imports.get(call.func.id, (None, None))[1] == 'Response'
+
+
+def _fold_const(repo, fi, expr, depth=0):
+    """Constant value of an expression: literal, single-assignment local, module-level constant, class-level constant
+    read through self / cls / the class name.  None when it is not a constant."""
+    if expr is None or depth > 4:
+        return None
+    if isinstance(expr, ast.Constant):
+        return expr.value
+    if isinstance(expr, ast.Name):
+        if fi is None:
+            return None
+        vals = [v for (_s, v, i) in assigned_value(fi.node, expr.id)]
+        if vals:
+            if len(vals) == 1 and isinstance(vals[0], ast.expr):
+                return _fold_const(repo, fi, vals[0], depth + 1)
+            return None
+        if fi is not None and expr.id in fi.params():
+            return None
+        return repo.try_fold(expr, fi.mod if fi is not None else None)
+    if isinstance(expr, ast.Attribute) and isinstance(expr.value, ast.Name) and fi is not None:
+        ci = None
+        if expr.value.id in ('self', 'cls') and fi.cls is not None:
+            ci = fi.cls
+        elif expr.value.id in fi.mod.classes:
+            ci = fi.mod.classes[expr.value.id]
+        if ci is not None:
+            dc, v = repo.class_attr(ci, expr.attr)
+            if dc is not None and isinstance(v, ast.expr):
+                return repo.try_fold(v, dc.mod)
+            return None
+    return repo.try_fold(expr, fi.mod) if fi is not None else None
+
+
+def _call_arg(repo, mod, call, name, fi=None):
+    """Argument ``name`` of a constructor / function call: keyword, or the positional slot the callee's signature
+    gives that name (callee resolved in the analysed tree)."""
+    v = kwarg(call, name)
+    if v is not None:
+        return v
+    for k in call.keywords:
+        # f(**options) with options = {...} / dict(...) bound once in the calling function
+        if k.arg is None:
+            d = k.value
+            if isinstance(d, ast.Name) and fi is not None:
+                vals = assigned_value(fi.node, d.id)
+                d = vals[0][1] if len(vals) == 1 and vals[0][2] is None else None
+            if isinstance(d, ast.Dict):
+                for kk, vv in zip(d.keys, d.values):
+                    if isinstance(kk, ast.Constant) and kk.value == name:
+                        return vv
+            elif isinstance(d, ast.Call) and isinstance(d.func, ast.Name) and d.func.id == 'dict' and not d.args:
+                if kwarg(d, name) is not None:
+                    return kwarg(d, name)
+    if any(isinstance(a, ast.Starred) for a in call.args):
+        return None
+    f = call.func
+    params = None
+    try:
+        if isinstance(f, ast.Name):
+            kind, m, obj = repo.resolve(mod, f.id)
+            if kind == 'func':
+                params = [p for p in obj.params()]
+            elif kind == 'class':
+                init = repo.find_method(obj, '__init__')
+                if init is not None:
+                    a = init.node.args
+                    params = [p.arg for p in a.posonlyargs + a.args][1:]
+    except Exception:
+        params = None
+    if params and name in params and params.index(name) < len(call.args):
+        return call.args[params.index(name)]
+    return None
+
+
+def _suppressed(fi, node):
+    """node runs inside ``with suppress(Exception):`` (contextlib) in this function."""
+    cur = node
+    while cur is not None and cur is not fi.node:
+        par = fi.mod.parents.get(cur)
+        if isinstance(cur, (ast.Lambda, ast.GeneratorExp)):
+            return False
+        if isinstance(par, ast.With) and cur in par.body:
+            for it in par.items:
+                ce = it.context_expr
+                if isinstance(ce, ast.Call) and call_tail(ce) == 'suppress' and ce.args and \
+                        all(norm(a).rpartition('.')[2] in ('Exception', 'BaseException') for a in ce.args):
+                    return True
+        cur = par
+    return False
+
+
+def _is_repr_of(expr, name):
+    """repr(name), '%r' % name / (name,), '{!r}'.format(name), f'{name!r}'."""
+    if isinstance(expr, ast.Call) and call_name(expr) == 'repr' and len(expr.args) == 1 and norm(expr.args[0]) == name:
+        return True
+    if isinstance(expr, ast.BinOp) and isinstance(expr.op, ast.Mod) and isinstance(expr.left, ast.Constant) and expr.left.value == '%r':
+        r = expr.right
+        if isinstance(r, ast.Tuple) and len(r.elts) == 1:
+            r = r.elts[0]
+        return norm(r) == name
+    if isinstance(expr, ast.Call) and isinstance(expr.func, ast.Attribute) and expr.func.attr == 'format' and \
+            isinstance(expr.func.value, ast.Constant) and expr.func.value.value in ('{!r}', '{0!r}') and len(expr.args) == 1:
+        return norm(expr.args[0]) == name
+    if isinstance(expr, ast.JoinedStr) and len(expr.values) == 1 and isinstance(expr.values[0], ast.FormattedValue) and \
+            expr.values[0].conversion == ord('r') and expr.values[0].format_spec is None:
+        return norm(expr.values[0].value) == name
+    return False
+
+
+_JSON_YES = {'object': [b'{}', b'{"a": 1}', b'{"a": [1, 2]}', b'{\n "k": "v"\n}', b'{"k": "\xc3\xa9"}'],
+             'array': [b'[]', b'[1, 2]', b'[{"a": 1}]', b'[\n 1\n]', b'["\xc3\xa9"]']}
+_JSON_NO = [b'x', b'hello world', b'{', b'[', b'}', b']', b'{]', b'[}', b'}{', b'][', b'<html></html>', b'a{}', b'{}a',
+            b'plain [text] x', b'x{"a": 1}', b'<!doctype html><html>{}</html>', b'\xff\xfe']
+
+
+_TEXT_BODIES = (
+    [(v, 'application/json') for v in _JSON_YES['object'] + _JSON_YES['array']] +
+    [(b'{"a": "<html>"}', 'application/json'), (b'[' + b'1, ' * 5000 + b'1]', 'application/json'),
+     (b'<html><body>x</body></html>', 'text/html'), (b'<!doctype html>\n<html lang="en"><head></head></html>', 'text/html'),
+     (b'  <html>\xc3\xa9</html>', 'text/html'), (b'see <html> for {details}', 'text/html'),
+     (b'', 'text/plain'), (b'hello world', 'text/plain'), (b'{', 'text/plain'), (b'[1, 2', 'text/plain'), (b'x{"a": 1}', 'text/plain'),
+     (b'{"a": 1} trailing', 'text/plain'), (b'caf\xc3\xa9', 'text/plain'), (b'}{', 'text/plain')])
+
+
+def _text_by_evaluation(rep, repo, simple, rr, ctx_param, paths, label_of, path_text, term_text):
+    """R17.c for text results when the tests of the text branch are not the two sniffs as such: run every
+    representative body down the symbolic paths (free tests are evaluated on the body) and compare the label."""
+    for T in ('str', 'bytes'):
+        per_label = {}
+        for body, want in _TEXT_BODIES:
+            value = body if T == 'bytes' else body.decode('utf-8')
+            taken = []
+            for st in paths[T]:
+                ok = True
+                for key, atom, orig, pol, decided in st.trace:
+                    if decided:
+                        continue
+                    r = eval_expr(repo, rr, atom, {ctx_param: value})
+                    if r[0] == 'unsupported':
+                        raise AnalysisError('render_response: the test %s of the text branch is neither a recognised sniff nor '
+                                            'evaluable (%s)' % (short(orig, 60), r[1]))
+                    if r[0] == 'raise':
+                        taken = [(st, 'raises %s evaluating %s' % (r[1], short(orig, 50)))]
+                        ok = None
+                        break
+                    if bool(r[1]) is not pol:
+                        ok = False
+                        break
+                if ok is None:
+                    break
+                if ok:
+                    taken.append((st, None))
+            problem = None
+            if len(taken) != 1:
+                problem = 'is served by %d paths' % len(taken)
+            elif taken[0][1]:
+                problem = 'on the path [%s] %s' % (path_text(taken[0][0]), taken[0][1])
+            else:
+                st = taken[0][0]
+                mt, b = label_of(st)
+                if mt != want:
+                    problem = 'must be labelled %s, but the path [%s] %s' % (want, path_text(st), term_text(st))
+                else:
+                    rb = eval_expr(repo, rr, b, {ctx_param: value}) if b is not None else ('value', None)
+                    if rb[0] == 'unsupported':
+                        raise AnalysisError('render_response: the response body %s cannot be evaluated (%s)' % (short(b, 60), rb[1]))
+                    if rb[0] != 'value' or rb[1] not in (value, body):
+                        problem = 'gets the body %s, not the endpoint result' % short(b, 60)
+            per_label.setdefault(want, []).append((value, problem, taken[0][0] if taken else None))
+        for want, res in sorted(per_label.items()):
+            bad = [(v, pr, st) for v, pr, st in res if pr]
+            rep.check('R17.c', '%s::label %s: %s result (evaluated)' % (rr.key, want, T), not bad,
+                      'all %d representative %s bodies that must be %s are labelled so' % (len(res), T, want) if not bad else
+                      'the %s result %r %s' % (T, bad[0][0] if len(bad[0][0]) < 60 else bad[0][0][:57] + type(bad[0][0])(b'...' if T == 'bytes' else '...'), bad[0][1]),
+                      simple, bad[0][2].term[2] if bad and bad[0][2] is not None and bad[0][2].term[2] is not None else rr.node)
+
+
+def _guess_by_role(repo, mod, rr):
+    """The JSON guess under another name: the one single-argument, bool-valued function of the module that
+    render_response (or a private helper it calls) applies -- looked up in the source as written, since the loader
+    dissolves private helpers into their callers."""
+    try:
+        raw = ast.parse(mod.src)
+    except SyntaxError:
+        return None
+    defs = {}
+    for st in raw.body:
+        if isinstance(st, ast.FunctionDef):
+            defs[st.name] = st
+        elif isinstance(st, ast.ClassDef):
+            for m in st.body:
+                if isinstance(m, ast.FunctionDef):
+                    defs['%s.%s' % (st.name, m.name)] = m
+    cls = rr.cls.qualname if rr.cls is not None else None
+    start = defs.get(rr.qualname)
+    if start is None:
+        return None
+    seen, cands, todo = set(), [], [(start, 0)]
+    while todo:
+        fn, depth = todo.pop()
+        for n in ast.walk(fn):
+            if not isinstance(n, ast.Call):
+                continue
+            f = n.func
+            q = None
+            if isinstance(f, ast.Name):
+                q = f.id
+            elif isinstance(f, ast.Attribute) and isinstance(f.value, ast.Name) and cls and f.value.id in ('self', 'cls', cls):
+                q = '%s.%s' % (cls, f.attr)
+            if q is None or q in seen or q not in defs or q not in mod.functions:
+                continue
+            seen.add(q)
+            fi = mod.functions[q]
+            ps = [p for p in fi.params() if p not in ('self', 'cls')]
+            if len(ps) == 1 and len(n.args) + len(n.keywords) == 1:
+                r = eval_pure(repo, fi, [b'{}'])
+                if r[0] == 'value' and isinstance(r[1], bool):
+                    cands.append(fi)
+            if depth < 2 and defs[q].name.startswith('_'):
+                todo.append((defs[q], depth + 1))
+    return cands[0] if len(cands) == 1 else None
+
+
+def _mime_tests(cs, fold=None):
+    """String constants a path condition list pins a value to: ``x == 'c'`` / ``'c' == x`` / ``x in ('c',)`` true
+    (``fold`` resolves named constants)."""
+    def const(a):
+        if isinstance(a, ast.Constant):
+            return a.value if isinstance(a.value, str) else None
+        if fold is not None and isinstance(a, (ast.Name, ast.Attribute)):
+            v = fold(a)
+            return v if isinstance(v, str) else None
+        return None
+    out = []
+    for t, p in cs:
+        if not (isinstance(t, ast.Compare) and len(t.ops) == 1):
+            continue
+        l, r, o = t.left, t.comparators[0], t.ops[0]
+        if (isinstance(o, ast.Eq) and p is True) or (isinstance(o, ast.NotEq) and p is False):
+            vs = [const(a) for a in (l, r)]
+            if (vs[0] is None) != (vs[1] is None):
+                out.append(vs[0] if vs[0] is not None else vs[1])
+        elif (isinstance(o, ast.In) and p is True) or (isinstance(o, ast.NotIn) and p is False):
+            if isinstance(r, (ast.Tuple, ast.List, ast.Set)) and len(r.elts) == 1 and const(r.elts[0]) is not None:
+                out.append(const(r.elts[0]))
+    return out
+
+
 def run(rep):
     repo = rep.repo
     simple = repo.mod(SIMPLE)
@@ -143,47 +1335,531 @@ def run(rep):
     rep.decline('JSON validity and round trip, HTML table shapes, streaming (values of third-party serialisers)')
     rep.assume('request.args / accept_mimetypes behave as in werkzeug 1.0.1')
 
-    # ---- R17.a -----------------------------------------------------------
-    rep.rule('R17.a', 'every global Name load resolves (symtable), in the render modules and every clastic '
-                      'function reachable from the renderer entry points')
-    cg = CallGraph(repo)
-    roots = [simple.func('BasicRender.render_response'), simple.func('BasicRender._serialize_to_resp'),
-             simple.func('JSONRender.__call__'), simple.func('JSONPRender.__call__'),
-             simple.func('ClasticJSONEncoder.default'), tabular.func('TabularRender.context_to_response')]
-    reach = cg.reachable(roots, kinds=('call', 'self', 'super', 'new', 'role', 'prop', 'classattr', 'instance-call'))
-    extra = {}
-    for f in reach:
-        if f.mod not in (simple, tabular) and not f.mod.external:
-            extra.setdefault(f.mod, set()).add(f.qualname)
-    check_unbound(rep, 'R17.a', [simple, tabular])
-    for m, quals in extra.items():
-        check_unbound(rep, 'R17.a', [m], scope_filter=lambda mm, sc, quals=quals: sc in quals)
-    rep.floor('R17.a', 20)
+    def g_names():
+        # ---- R17.a -----------------------------------------------------------
+        rep.rule('R17.a', 'every global Name load resolves (symtable), in the render modules and every clastic '
+                          'function reachable from the renderer entry points')
+        cg = CallGraph(repo)
+        roots = [simple.func('BasicRender.render_response'), simple.func('BasicRender._serialize_to_resp'),
+                 simple.func('JSONRender.__call__'), simple.func('JSONPRender.__call__'),
+                 simple.func('ClasticJSONEncoder.default'), tabular.func('TabularRender.context_to_response')]
+        reach = cg.reachable(roots, kinds=('call', 'self', 'super', 'new', 'role', 'prop', 'classattr', 'instance-call'))
+        extra = {}
+        for f in reach:
+            if f.mod not in (simple, tabular) and not f.mod.external:
+                extra.setdefault(f.mod, set()).add(f.qualname)
+        check_unbound(rep, 'R17.a', [simple, tabular])
+        for m, quals in extra.items():
+            check_unbound(rep, 'R17.a', [m], scope_filter=lambda mm, sc, quals=quals: sc in quals)
+        rep.floor('R17.a', 20)
 
-    # ---- R17.b -----------------------------------------------------------
-    rep.rule('R17.b', 'no bytes/str/int type confusion in classification tests; _guess_json labels are feasible')
-    gj = simple.func('BasicRender._guess_json')
-    bnames = _bytes_typed_names(repo, gj)
-    if not bnames:
-        # fall back: the single positional parameter, if every call site is dominated by isinstance(x, bytes)
-        ps = [p for p in gj.params() if p not in ('self', 'cls')]
-        rr = simple.func('BasicRender.render_response')
-        sites = [c for c in walk_body(rr.node) if isinstance(c, ast.Call) and call_tail(c) == '_guess_json']
-        if len(ps) == 1 and sites and all(
-                has_cond(conds(rr, c), lambda t, c=c: isinstance_test(t, norm(c.args[0]), 'bytes'), True)
-                for c in sites if c.args):
-            bnames = {ps[0]}
-    if not bnames:
-        raise AnalysisError('cannot establish that _guess_json receives bytes')
-    confusions = list(type_confusions(gj.node, bnames))
-    for n, why in confusions:
-        rep.fail('R17.b', fkey(gj, n), why, simple, n)
-    if not confusions:
-        rep.ok('R17.b', fkey(gj), 'no constant-false or TypeError-raising test on the bytes parameter %s' % sorted(bnames), simple, gj.node)
-    # label feasibility: each ``return True`` is guarded by a matching bracket pair
+    TYPES = ('str', 'bytes', 'sized', 'unsized')
+    _rr = {}
+
+    def get_rr():
+        """(render_response, name of its endpoint-result parameter, {abstract result type: symbolic paths})."""
+        if not _rr:
+            rr = simple.func('BasicRender.render_response')
+            rr_params = [p for p in rr.params() if p not in ('self', 'cls')]
+            if not rr_params:
+                raise AnalysisError('BasicRender.render_response takes no endpoint result')
+            ctx_param = 'context' if 'context' in rr_params else rr_params[0]
+            paths = dict((T, sym_paths(rr, _decide_typed(simple, ctx_param, T), fold=lambda e: _fold_names(repo, rr, e),
+                                       resolve=follow_resolver(repo, rr, keep=('_guess_json', '_serialize_to_resp'))))
+                         for T in TYPES)
+            _rr['v'] = (rr, ctx_param, paths)
+        return _rr['v']
+
+    def sniffs(st):
+        """[(kind, searched / guessed value, original test node, polarity)] of the free sniffing tests of a path."""
+        out = []
+        for key, atom, orig, pol, decided in st.trace:
+            k, arg = _sniff_kind(atom)
+            if k is not None and not decided:
+                out.append((k, arg, orig, pol))
+        return out
+
+    def g_guess():
+        # ---- R17.b -----------------------------------------------------------
+        rep.rule('R17.b', 'no bytes/str/int type confusion in classification tests; _guess_json labels are feasible')
+        gj = simple.functions.get('BasicRender._guess_json') or simple.functions.get('_guess_json') or \
+            _guess_by_role(repo, simple, get_rr()[0])
+        if gj is None:
+            raise AnalysisError('anchor vanished: function %s::BasicRender._guess_json' % SIMPLE)
+        repo.functions_touched.add(gj.key)
+        gj_params = [p for p in gj.params() if p not in ('self', 'cls')]
+        bnames = _bytes_typed_names(repo, gj)
+        if not bnames:
+            # fall back: the single positional parameter, if every call in render_response passes a bytes-typed value
+            rr, ctx_param, paths = get_rr()
+            args = [(T, a) for T in ('str', 'bytes') for st in paths[T] for k, a, o, p in sniffs(st) if k == 'gj']
+            if len(gj_params) == 1 and args and all(_abs_type(a, ctx_param, T) == 'bytes' for T, a in args):
+                bnames = {gj_params[0]}
+        if not bnames or len(gj_params) != 1:
+            raise AnalysisError('cannot establish that _guess_json receives bytes')
+        confusions = list(type_confusions(gj.node, bnames))
+        for n, why in confusions:
+            rep.fail('R17.b', fkey(gj, n), why, simple, n)
+        if not confusions:
+            rep.ok('R17.b', fkey(gj), 'no constant-false or TypeError-raising test on the bytes parameter %s' % sorted(bnames), simple, gj.node)
+        # label feasibility, decided by evaluating the (pure) function on representative bodies
+        probe = eval_pure(repo, gj, [b'{}'])
+        if probe[0] != 'unsupported':
+            def outcomes(vectors):
+                return [(v, eval_pure(repo, gj, [v])) for v in vectors]
+            unsup = [r for v, r in outcomes(_JSON_YES['object'] + _JSON_YES['array'] + _JSON_NO + [b'']) if r[0] == 'unsupported']
+            if unsup:
+                raise AnalysisError('_guess_json cannot be evaluated: %s' % unsup[0][1])
+            for kind in ('object', 'array'):
+                res = outcomes(_JSON_YES[kind])
+                bad = [(v, r) for v, r in res if not (r[0] == 'value' and r[1] is True)]
+                rep.check('R17.b', fkey(gj, 'accepts ' + kind), not bad,
+                          'every serialized JSON %s among %d representative bodies is recognised' % (kind, len(res)) if not bad else
+                          '%s(%r) %s: a serialized JSON %s is not labelled application/json'
+                          % (gj.name, bad[0][0], 'returns %r' % (bad[0][1][1],) if bad[0][1][0] == 'value' else 'raises ' + bad[0][1][1], kind),
+                          simple, gj.node)
+            res = outcomes(_JSON_NO)
+            bad = [(v, r) for v, r in res if not (r[0] == 'value' and not r[1])]
+            rep.check('R17.b', fkey(gj, 'bracket pairs'), not bad,
+                      'only bodies delimited by a matching {..} / [..] pair are guessed to be JSON (%d other bodies rejected)' % len(res)
+                      if not bad else '%s(%r) %s: text that is no JSON container must stay text/html / text/plain'
+                      % (gj.name, bad[0][0], 'returns %r' % (bad[0][1][1],) if bad[0][1][0] == 'value' else 'raises ' + bad[0][1][1]),
+                      simple, gj.node)
+            r = eval_pure(repo, gj, [b''])
+            ok = r[0] == 'value' and not r[1]
+            rep.check('R17.b', fkey(gj, 'empty'), ok, 'empty input is not JSON and raises nothing' if ok else
+                      '%s(b\'\') %s (indexing an empty value is not guarded)'
+                      % (gj.name, 'returns %r' % (r[1],) if r[0] == 'value' else 'raises ' + r[1]), simple, gj.node)
+        else:
+            _gj_structural(rep, simple, gj, bnames, probe[1])
+    def g_render():
+        rr, ctx_param, paths = get_rr()
+        # the caller side: the sniffing tests of render_response on text results
+        rr_conf, seen = [], set()
+        n_tests = 0
+        for T in ('str', 'bytes'):
+            for st in paths[T]:
+                for key, atom, orig, pol, decided in st.trace:
+                    n_tests += 1
+                    for x, why in type_confusions([ast.Expr(value=atom)], {ctx_param} if T == 'bytes' else set()):
+                        if id(orig) not in seen:
+                            seen.add(id(orig))
+                            rr_conf.append((orig, why))
+        if not n_tests:
+            raise AnalysisError('render_response: no classification tests found')
+        for x, why in rr_conf:
+            rep.fail('R17.b', fkey(rr, x), why, simple, x)
+        if not rr_conf:
+            rep.ok('R17.b', fkey(rr), 'sniffing tests on the bytes context are type-consistent', simple, rr.node)
+
+        # ---- R17.c -----------------------------------------------------------
+        rep.rule('R17.c', 'each Response label is decided by its classification test (json guess, then html sniff, else plain) '
+                          'on the encoded text; unsized values are stringified; Sized values go to _serialize_to_resp')
+
+        def label_of(st):
+            """(mimetype, body expr) of a path that returns Response(body, mimetype=<constant>), else (None, None)."""
+            if st.term[0] != 'return' or not _is_response(simple, st.term[1]):
+                return None, None
+            v = st.term[1]
+            mt = _fold_const(repo, rr, argn(v, 'mimetype', 3))
+            return (mt if isinstance(mt, str) else None), argn(v, 'response', 0)
+
+        def term_text(st):
+            return 'falls off the end (returns None)' if st.term[0] == 'fall' else \
+                ('raises %s' % short(st.term[1], 60) if st.term[0] == 'raise' else 'returns %s' % short(st.term[1], 80))
+
+        def path_text(st):
+            return '; '.join('%s%s' % ('' if c[3] else 'not ', short(c[2], 50)) for c in st.trace) or 'unconditionally'
+
+        for T in TYPES:
+            for st in paths[T]:
+                v = st.term[1]
+                if st.term[0] == 'return' and _is_response(simple, v) and \
+                        argn(v, 'mimetype', 3) is not None and label_of(st)[0] is None:
+                    raise AnalysisError('render_response: the mimetype %s of a returned Response is not a constant the analysis '
+                                        'can follow' % short(argn(v, 'mimetype', 3), 60))
+        free_text = [(T, st, c) for T in ('str', 'bytes') for st in paths[T] for c in st.free()]
+        symbolic = bool(free_text) and all(_sniff_kind(c[1])[0] is not None for T, st, c in free_text)
+        if not symbolic:
+            # some test of the text branch is not one of the two sniffs as such (a guess helper dissolved into its
+            # caller, a combined test): decide the labels by evaluating the path conditions on representative bodies
+            _text_by_evaluation(rep, repo, simple, rr, ctx_param, paths, label_of, path_text, term_text)
+        if symbolic:
+            expected = {(True, True): 'application/json', (True, False): 'application/json', (False, True): 'text/html',
+                        (False, False): 'text/plain'}
+            for T in ('str', 'bytes'):
+                for (g, h), want in sorted(expected.items(), reverse=True):
+                    cons = [st for st in paths[T]
+                            if all(not (k == 'gj' and p is not g) and not (k == 'html' and p is not h) for k, a, o, p in sniffs(st))]
+                    bad = [st for st in cons if label_of(st)[0] != want]
+                    # the body must be the endpoint's text (as given or encoded)
+                    badbody = [st for st in cons if st not in bad and not (
+                        _abs_type(label_of(st)[1], ctx_param, T) in ('str', 'bytes') and
+                        ctx_param in [n.id for n in ast.walk(label_of(st)[1]) if isinstance(n, ast.Name)])]
+                    ok = bool(cons) and not bad and not badbody
+                    what = '%s result, json guess %s, html sniff %s' % (T, 'true' if g else 'false', 'true' if h else 'false')
+                    if ok:
+                        detail = '%s is labelled %s on every path (%d)' % (what, want, len(cons))
+                    elif not cons:
+                        detail = 'no path of render_response serves a %s' % what
+                    elif bad:
+                        detail = '%s must be labelled %s, but the path [%s] %s' % (what, want, path_text(bad[0]), term_text(bad[0]))
+                    else:
+                        detail = '%s: the response body %s is not the endpoint result' % (what, short(label_of(badbody[0])[1], 60))
+                    where = (bad or badbody or cons or [None])[0]
+                    rep.check('R17.c', fkey(rr, 'label %s: %s' % (want, what)), ok, detail, simple,
+                              where.term[2] if where is not None and where.term[2] is not None else rr.node)
+            # str is encoded before the bytes classification: every sniff of a text result looks at bytes
+            for T in ('str', 'bytes'):
+                sn = [(k, a, o, st) for st in paths[T] for k, a, o, p in sniffs(st)]
+                wrong = [(k, a, o, st) for k, a, o, st in sn if _abs_type(a, ctx_param, T) != 'bytes']
+                kinds = set(k for k, a, o, st in sn)
+                ok = kinds == {'gj', 'html'} and not wrong
+                rep.check('R17.c', fkey(rr, 'encode-before-classify' if T == 'str' else 'classify bytes'), ok,
+                          ('str contexts are encoded and then flow into the bytes classification' if T == 'str' else
+                           'bytes contexts are classified as they are') if ok else
+                          ('text is not encoded before the bytes classification (str results would skip the sniffing): %s'
+                           % (short(wrong[0][2], 60) + ' looks at ' + short(wrong[0][1], 40) if wrong else 'sniffing tests missing'))
+                          if T == 'str' else 'the classification of bytes results does not run both sniffing tests on the bytes value',
+                          simple, wrong[0][2] if wrong else rr.node)
+        # not Sized -> stringified text/plain
+        good_all, first_bad = bool(paths['unsized']), None
+        for st in paths['unsized']:
+            mt, a0 = label_of(st)
+            good = mt == 'text/plain' and a0 is not None and (
+                (isinstance(a0, ast.Call) and isinstance(a0.func, ast.Name) and a0.args and norm(a0.args[0]) == ctx_param) or
+                (isinstance(a0, (ast.JoinedStr, ast.BinOp)) and ctx_param in [n.id for n in ast.walk(a0) if isinstance(n, ast.Name)]) or
+                (isinstance(a0, ast.Call) and isinstance(a0.func, ast.Attribute) and a0.func.attr == 'format'
+                 and ctx_param in [norm(x) for x in a0.args]))
+            if not good and first_bad is None:
+                good_all, first_bad = False, st
+        rep.check('R17.c', fkey(rr, 'stringify'), good_all,
+                  'non-Sized values are rendered as text/plain text on every path (%d)' % len(paths['unsized']) if good_all else
+                  'a non-Sized value is not stringified into a text/plain Response: the path [%s] %s'
+                  % (path_text(first_bad), term_text(first_bad)) if first_bad is not None else 'no path serves non-Sized values',
+                  simple, first_bad.term[2] if first_bad is not None and first_bad.term[2] is not None else rr.node)
+        # everything else -> _serialize_to_resp
+        first_bad = None
+        for st in paths['sized']:
+            v = st.term[1] if st.term[0] == 'return' else None
+            good = isinstance(v, ast.Call) and call_tail(v) == '_serialize_to_resp' and \
+                norm(argn(v, 'context', 0)) == ctx_param
+            if not good and first_bad is None:
+                first_bad = st
+        ok = bool(paths['sized']) and first_bad is None
+        rep.check('R17.c', fkey(rr, 'serialize'), ok,
+                  'Sized non-text contexts are handed to _serialize_to_resp on every path (%d)' % len(paths['sized']) if ok else
+                  '_serialize_to_resp is not the continuation for Sized non-text contexts: the path [%s] %s'
+                  % (path_text(first_bad), term_text(first_bad)) if first_bad is not None else 'no path serves Sized values',
+                  simple, first_bad.term[2] if first_bad is not None and first_bad.term[2] is not None else rr.node)
+        # all paths of render_response end in a return of a call (Response / renderer), none applies a text method to the wrong type
+        bad = []
+        for T in TYPES:
+            for st in paths[T]:
+                if st.term[0] != 'return' or not isinstance(st.term[1], ast.Call):
+                    bad.append((T, st, term_text(st)))
+                    continue
+                errs = [e for x in [st.term[1]] + [c[1] for c in st.trace] + list(st.env.values()) for e in _type_errors(x, ctx_param, T)]
+                if errs:
+                    bad.append((T, st, 'evaluates %s (AttributeError)' % short(errs[0], 60)))
+        rep.check('R17.c', fkey(rr, 'returns'), not bad,
+                  'every path returns a constructed response' if not bad else
+                  'for a %s result the path [%s] %s' % (bad[0][0], path_text(bad[0][1]), bad[0][2]), simple,
+                  bad[0][1].term[2] if bad and bad[0][1].term[2] is not None else rr.node)
+    def g_serialize():
+        # _serialize_to_resp branches
+        sr = simple.func('BasicRender._serialize_to_resp')
+        want_map = {'application/json': 'json_render', 'text/html': 'tabular_render'}
+        branch_mimes = set()
+        n_branches = 0
+
+        def renderer_of(call):
+            t = call_tail(call)
+            if isinstance(call.func, ast.Name):
+                vals = [v for (_s, v, i) in assigned_value(sr.node, call.func.id)]
+                if len(vals) == 1 and isinstance(vals[0], ast.Attribute):
+                    t = vals[0].attr
+            return t
+        # ---- R17.e -----------------------------------------------------------
+        rep.rule('R17.e', '_format_mime_map, _default_mime and the branches of _serialize_to_resp agree')
+        br = simple.cls('BasicRender')
+
+        def fold_table(expr):
+            try:
+                return repo.fold(expr, simple)
+            except Exception:
+                if isinstance(expr, ast.Call) and isinstance(expr.func, ast.Name) and expr.func.id == 'dict' and \
+                        all(k.arg is not None for k in expr.keywords):
+                    d = dict(repo.fold(expr.args[0], simple)) if expr.args else {}
+                    d.update((k.arg, repo.fold(k.value, simple)) for k in expr.keywords)
+                    return d
+                raise
+        try:
+            fmm = fold_table(repo.class_attr(br, '_format_mime_map')[1])
+            dm = repo.fold(repo.class_attr(br, '_default_mime')[1], simple)
+            if not isinstance(fmm, dict) or not isinstance(dm, str):
+                raise ValueError('not a table')
+        except Exception as e:
+            raise AnalysisError('cannot fold BasicRender format tables: %s' % e)
+        for r in returns_of(sr):
+            v = r.value
+            if isinstance(v, ast.Call) and renderer_of(v) in ('json_render', 'tabular_render'):
+                n_branches += 1
+                cs = conds(sr, r)
+                fold_ = lambda a: _fold_const(repo, sr, a)
+                mimes = _mime_tests(cs, fold_)
+                if not mimes:
+                    # the fall-through renderer: serves whatever the tests before it did not pick from the table
+                    neg = _mime_tests([(t, not p) for t, p in cs], fold_)
+                    rest = sorted(set(fmm.values()) - set(neg))
+                    if neg and len(rest) == 1:
+                        mimes = rest
+                ok = len(set(mimes)) == 1 and want_map.get(mimes[0]) == renderer_of(v)
+                if ok:
+                    branch_mimes.add(mimes[0])
+                rep.check('R17.c', fkey(sr, 'branch ' + renderer_of(v)), ok,
+                          '%s serves %s' % (renderer_of(v), mimes) if ok else
+                          '%s is returned under mime test %r (expected %s)' % (renderer_of(v), mimes,
+                                                                                  [k for k, x in want_map.items() if x == renderer_of(v)]),
+                          simple, r)
+        if not n_branches:
+            raise AnalysisError('_serialize_to_resp: the returns that call json_render / tabular_render were not found')
+        for fmt, mime in sorted(fmm.items()):
+            rep.check('R17.e', '%s::BasicRender._format_mime_map[%s]' % (SIMPLE, fmt), mime in branch_mimes,
+                      'format %r -> %r has a serving branch' % (fmt, mime) if mime in branch_mimes else
+                      'format %r maps to %r which no branch of _serialize_to_resp serves' % (fmt, mime), simple, sr.node)
+        rep.check('R17.e', '%s::BasicRender._default_mime' % SIMPLE, dm in fmm.values() and dm in branch_mimes,
+                  'default mime %r is a supported, served format' % dm if dm in fmm.values() and dm in branch_mimes else
+                  'default mime %r is not among the served formats %r' % (dm, sorted(branch_mimes)), simple, sr.node)
+        # unsupported explicit format is rejected with ValueError (documented escape hatch), never mis-served
+        rz = [r for r in raises_of(sr) if raise_type(r) == 'ValueError']
+        rep.check('R17.e', fkey(sr, 'unsupported format'), bool(rz), 'unsupported ?format= is rejected explicitly' if rz else
+                  'unsupported ?format= values are no longer rejected', simple, sr.node)
+        rep.floor('R17.e', 3)
+    def g_encoder():
+        # ---- R17.d -----------------------------------------------------------
+        rep.rule('R17.d', 'TypeError from the encoder only when dev_mode is false; shipped renderers are dev-mode')
+        de = simple.func('ClasticJSONEncoder.default')
+        de_params = [p for p in de.params() if p not in ('self', 'cls')]
+        obj_param = de_params[0] if de_params else 'obj'
+        is_dev = lambda t: norm(t) == 'self.dev_mode'
+        # the fallback may live in a method default() ends in (return self.fallback(obj)): follow it one level
+        res = follow_resolver(repo, de)
+        bodies = [(de, obj_param)]
+        for r in returns_of(de):
+            if isinstance(r.value, ast.Call) and res(r.value) is not None and any(norm(a) == obj_param for a in r.value.args):
+                callee = res(r.value)
+                cps = [p for p in callee.params() if p not in ('self', 'cls')]
+                idx = [norm(a) for a in r.value.args].index(obj_param)
+                if callee not in [b[0] for b in bodies] and idx < len(cps):
+                    bodies.append((callee, cps[idx]))
+        n_raise = 0
+        for f_, objp in bodies:
+            for r in raises_of(f_):
+                if raise_type(r) == 'TypeError':
+                    n_raise += 1
+                    cs = conds(f_, r)
+                    ok = has_cond(cs, is_dev, False)
+                    rep.check('R17.d', fkey(f_, 'raise TypeError'), ok,
+                              'raise is reachable only when self.dev_mode is false' if ok else
+                              'TypeError can be raised although dev_mode is true (conditions: %s)' % '; '.join(cond_texts(cs)),
+                              f_.mod, r)
+        reprs = [r for f_, objp in bodies for r in returns_of(f_) if r.value is not None and
+                 (_is_repr_of(r.value, objp) or (isinstance(r.value, ast.Call) and call_name(r.value) == 'repr'))
+                 and has_cond(conds(f_, r), is_dev, True)]
+        if not reprs and not n_raise and not any('dev_mode' in norm(n) for f_, o in bodies for n in walk_body(f_.node)
+                                                 if isinstance(n, ast.Attribute)):
+            raise AnalysisError('ClasticJSONEncoder.default: the dev-mode fallback (repr / TypeError) was not found')
+        rep.check('R17.d', fkey(de, 'return repr'), bool(reprs),
+                  'dev mode degrades unknown objects to repr(obj)' if reprs else
+                  'no "return repr(obj)" under self.dev_mode', simple, de.node)
+        # default() never falls off the end
+        cfg_de = cfg_of(de)
+        falls = cfg_de.exit in cfg_de.reach([cfg_de.entry], avoid=set(cfg_de.nodes_of_all(returns_of(de))), normal_only=True)
+        rep.check('R17.d', fkey(de, 'total'), not falls, 'default() returns or raises on every path' if not falls else
+                  'default() can fall off the end and return None', simple, de.node)
+        # conversions of the object that can fail on its *content* (decoding, parsing) must be attempts, like the
+        # dict()/list() attempts next to them: an unguarded one turns "degrade to repr" into an exception
+        from .common import protected_by
+        converters = ('dict', 'list', 'int', 'float', 'tuple', 'set', 'frozenset', 'sorted')
+        n_att = 0
+        for c in walk_body(de.node):
+            if not isinstance(c, ast.Call):
+                continue
+            fname = c.func.id if isinstance(c.func, ast.Name) else None
+            if fname is not None and fname not in converters:
+                # a local that ranges over converter callables:  for conv in (dict, list): ... conv(obj)
+                vals = assigned_value(de.node, fname)
+                its = [v for (_s, v, i) in vals if i == 'iter' and isinstance(v, (ast.Tuple, ast.List))]
+                if len(vals) == 1 and its and all(isinstance(e, ast.Name) and e.id in converters for e in its[0].elts):
+                    fname = its[0].elts[0].id
+                else:
+                    fname = None
+            if call_tail(c) in ('decode', 'loads', 'fromhex', 'unhexlify', 'b64decode') or fname in converters:
+                n_att += 1
+                h = protected_by(de, c, 'ValueError')
+                ok = (h is not None and not any(isinstance(x, ast.Raise) for x in ast.walk(h))) or _suppressed(de, c)
+                rep.check('R17.d', fkey(de, c), ok, 'conversion attempt %s is guarded (falls through to the next strategy)' % short(c, 40) if ok else
+                          'conversion %s in ClasticJSONEncoder.default is unguarded: a value it cannot convert (e.g. non-UTF-8 bytes) raises '
+                          'instead of degrading' % short(c, 60), simple, c)
+        if n_att < 2:
+            raise AnalysisError('ClasticJSONEncoder.default: conversion attempts not found')
+
+        # construction sites
+        def dev_arg(fi_, call):
+            return _call_arg(repo, fi_.mod if fi_ is not None else simple, call, 'dev_mode', fi_)
+
+        def popped_default(fi_, expr):
+            """(True, default) when expr reads the 'dev_mode' option: kwargs.pop/get('dev_mode', default) or a parameter."""
+            if isinstance(expr, ast.Call) and call_tail(expr) in ('pop', 'get') and expr.args and \
+                    isinstance(expr.args[0], ast.Constant) and expr.args[0].value == 'dev_mode':
+                return True, (_fold_const(repo, fi_, expr.args[1]) if len(expr.args) > 1 else None)
+            if isinstance(expr, ast.Name):
+                a = fi_.node.args
+                ps = a.posonlyargs + a.args
+                ds = dict(zip([p.arg for p in ps][len(ps) - len(a.defaults):], a.defaults))
+                ds.update((p.arg, d) for p, d in zip(a.kwonlyargs, a.kw_defaults) if d is not None)
+                if expr.id == 'dev_mode' and expr.id in fi_.params() and not assigned_value(fi_.node, expr.id):
+                    return True, (_fold_const(repo, None, ds[expr.id]) if expr.id in ds else None)
+                vals = assigned_value(fi_.node, expr.id)
+                if len(vals) == 1 and vals[0][2] is None and isinstance(vals[0][1], ast.expr) and not isinstance(vals[0][1], ast.Name):
+                    return popped_default(fi_, vals[0][1])
+            return False, None
+
+        def is_own_dev(fi_, expr):
+            """expr is the dev_mode of the instance under construction / in use: self.dev_mode, the dev_mode parameter, or a
+            local that is stored into self.dev_mode / reads the dev_mode option."""
+            if expr is None:
+                return False
+            if norm(expr) == 'self.dev_mode':
+                return True
+            if isinstance(expr, ast.Name):
+                if popped_default(fi_, expr)[0]:
+                    return True
+                return any(isinstance(s, ast.Assign) and norm(s.targets[0]) == 'self.dev_mode' and norm(s.value) == expr.id
+                           for s in stmts_of(fi_.node))
+            return False
+
+        br_init = simple.func('BasicRender.__init__')
+        sets = [s for s in stmts_of(br_init.node) if isinstance(s, ast.Assign) and norm(s.targets[0]) == 'self.dev_mode']
+        found = [popped_default(br_init, s.value) for s in sets]
+        if not sets:
+            raise AnalysisError('BasicRender.__init__: the assignment of self.dev_mode was not found')
+        ok = len(sets) == 1 and found[0][0] and found[0][1] is True
+        rep.check('R17.d', fkey(br_init, "kwargs.pop('dev_mode')"), ok, 'BasicRender defaults to dev_mode=True' if ok else
+                  'BasicRender no longer defaults dev_mode to True', simple, sets[0])
+        jr_in_br = [c for c in walk_body(br_init.node) if isinstance(c, ast.Call) and call_tail(c) == 'JSONRender']
+        ok = bool(jr_in_br) and all(is_own_dev(br_init, dev_arg(br_init, c)) for c in jr_in_br)
+        rep.check('R17.d', fkey(br_init, 'JSONRender(dev_mode=self.dev_mode)'), ok,
+                  'BasicRender builds its JSONRender with its own dev_mode' if ok else 'BasicRender does not forward dev_mode to JSONRender',
+                  simple, br_init.node)
+        jr_init = simple.func('JSONRender.__init__')
+        enc_calls = [c for c in walk_body(jr_init.node) if isinstance(c, ast.Call) and call_tail(c) == 'ClasticJSONEncoder']
+        ok = bool(enc_calls) and all(is_own_dev(jr_init, dev_arg(jr_init, c)) for c in enc_calls)
+        rep.check('R17.d', fkey(jr_init, 'ClasticJSONEncoder(dev_mode=...)'), ok,
+                  'JSONRender forwards dev_mode to its encoder' if ok else 'JSONRender does not forward dev_mode to the encoder',
+                  simple, jr_init.node)
+        # every encoder / JSON renderer constructed by a renderer class forwards the renderer's dev_mode
+        # (a subclass that rebuilds self.json_encoder without it silently leaves dev mode)
+        for q, fi_ in sorted(simple.functions.items()):
+            if fi_.cls is None or q in ('JSONRender.__init__', 'BasicRender.__init__'):
+                continue
+            for c in walk_body(fi_.node):
+                if isinstance(c, ast.Call) and call_tail(c) in ('ClasticJSONEncoder', 'JSONRender', 'JSONPRender'):
+                    dv = dev_arg(fi_, c)
+                    ok = dv is not None and (is_own_dev(fi_, dv) or _fold_const(repo, fi_, dv) is True)
+                    rep.check('R17.d', fkey(fi_, c), ok, 'encoder/renderer constructed with the instance\'s dev_mode' if ok else
+                              '%s constructs %s without forwarding dev_mode: unknown objects raise TypeError instead of degrading to repr'
+                              % (q, call_tail(c)), simple, c)
+        # and nobody re-binds the encoder of a renderer after construction
+        for q, fi_ in sorted(simple.functions.items()):
+            for s in stmts_of(fi_.node):
+                if isinstance(s, ast.Assign) and norm(s.targets[0]) == 'self.json_encoder' and q != 'JSONRender.__init__':
+                    v = s.value
+                    ok = isinstance(v, ast.Call) and is_own_dev(fi_, dev_arg(fi_, v))
+                    rep.check('R17.d', fkey(fi_, 'self.json_encoder'), ok, 're-bound encoder keeps dev_mode' if ok else
+                              '%s re-binds self.json_encoder without dev_mode' % q, simple, s)
+        enc_init = simple.func('ClasticJSONEncoder.__init__')
+        sets = [s for s in stmts_of(enc_init.node) if isinstance(s, ast.Assign) and norm(s.targets[0]) == 'self.dev_mode']
+        ok = len(sets) == 1 and popped_default(enc_init, sets[0].value)[0]
+        rep.check('R17.d', fkey(enc_init, 'self.dev_mode'), ok, 'encoder takes dev_mode from its keyword' if ok else
+                  'encoder no longer stores the dev_mode keyword', simple, enc_init.node)
+        for name, want_dev in (('render_basic', None), ('render_json_dev', True)):
+            vals = simple.assigns.get(name, [])
+            ok = len(vals) == 1 and isinstance(vals[0], ast.Call)
+            if ok:
+                dv = _call_arg(repo, simple, vals[0], 'dev_mode')
+                if want_dev is True:
+                    ok = dv is not None and repo.try_fold(dv, simple) is True
+                else:
+                    ok = call_name(vals[0]) == 'BasicRender' and (dv is None or repo.try_fold(dv, simple) is True)
+            rep.check('R17.d', '%s::%s' % (SIMPLE, name), ok, '%s is constructed in dev mode' % name if ok else
+                      '%s is not constructed in dev mode' % name, simple, vals[0] if vals else None)
+        tj = errors.func('HTTPException.to_json')
+        encs = [(tj, c) for c in walk_body(tj.node) if isinstance(c, ast.Call) and call_tail(c) == 'ClasticJSONEncoder']
+        # an encoder built once at module / class level and used by to_json
+        for n in walk_body(tj.node):
+            v = None
+            if isinstance(n, ast.Name) and isinstance(n.ctx, ast.Load) and len(errors.assigns.get(n.id, [])) == 1:
+                v = errors.assigns[n.id][0]
+            elif isinstance(n, ast.Attribute) and isinstance(n.value, ast.Name) and n.value.id in ('self', 'cls') and tj.cls is not None:
+                v = repo.class_attr(tj.cls, n.attr)[1]
+            if isinstance(v, ast.Call) and call_tail(v) == 'ClasticJSONEncoder':
+                encs.append((None, v))
+        if not encs:
+            raise AnalysisError('HTTPException.to_json: the ClasticJSONEncoder it encodes with was not found')
+        ok = all(_fold_const(repo, f_, _call_arg(repo, errors, c, 'dev_mode', f_)) is True if f_ is not None else
+                 repo.try_fold(_call_arg(repo, errors, c, 'dev_mode') or ast.Constant(value=None), errors) is True for f_, c in encs)
+        rep.check('R17.d', fkey(tj, 'ClasticJSONEncoder'), ok, 'error JSON is encoded in dev mode (never raises on odd details)' if ok else
+                  'HTTPException.to_json does not use a dev-mode encoder', errors, tj.node)
+
+    def g_labels():
+        # JSON renderer labels
+        for q, want in (('JSONRender.__call__', 'application/json'), ('JSONPRender.__call__', 'application/javascript')):
+            f = simple.func(q)
+            calls = [c for c in walk_body(f.node) if _is_response(simple, c)]
+            if not calls:
+                raise AnalysisError('%s: the Response it constructs was not found' % q)
+            mts = [_fold_const(repo, f, argn(c, 'mimetype', 3)) for c in calls]
+            ok = all(m == want for m in mts)
+            rep.check('R17.e', fkey(f, 'mimetype'), ok, '%s labels its body %s' % (q, want) if ok else
+                      '%s does not label its body %s (found %r)' % (q, want, mts), simple, f.node)
+
+
+    def safely(fn):
+        def group():
+            try:
+                return fn()
+            except AnalysisError:
+                raise
+            except RecursionError:
+                raise AnalysisError('%s: recursion limit reached in the checker' % fn.__name__)
+            except Exception as e:
+                import traceback
+                tb = traceback.extract_tb(e.__traceback__)[-1]
+                raise AnalysisError('%s: internal error in the rule (%s: %s at %s:%s)'
+                                    % (fn.__name__, type(e).__name__, e, tb.filename.rpartition('/')[2], tb.lineno))
+        group.__name__ = fn.__name__
+        return group
+    for g in (g_names, g_guess, g_render, g_serialize, g_encoder, g_labels):
+        rep.guard(safely(g))
+    # floors are checked after all groups ran, so that one unrecognised construct does not hide the others
+    for rule_, n_ in (('R17.c', 9),):
+        try:
+            rep.floor(rule_, n_)
+        except AnalysisError as e:
+            if not rep.gaps:
+                rep.gaps.append(str(e))
+
+
+def _gj_structural(rep, simple, gj, bnames, why):
+    """Label feasibility of _guess_json by shape (used when the function cannot be evaluated): each ``return True`` is
+    guarded by a matching bracket pair on first and last byte."""
     pairs_seen = set()
     want = {(b'{', b'}'), (b'[', b']')}
     rets_true = [r for r in returns_of(gj) if isinstance(r.value, ast.Constant) and r.value.value is True]
+    if not rets_true:
+        raise AnalysisError('_guess_json has a shape the analysis cannot follow (%s; no "return True")' % why)
     for r in rets_true:
         cs = conds(gj, r)
         lits = []
@@ -209,260 +1885,11 @@ def run(rep):
     rep.check('R17.b', fkey(gj, 'bracket pairs'), pairs_seen == want,
               'both JSON container forms ({..} and [..]) are recognised' if pairs_seen == want else
               'recognised bracket pairs %r, expected object and array' % sorted(pairs_seen), simple, gj.node)
-    # empty input is not JSON
     rets_false_empty = [r for r in returns_of(gj) if isinstance(r.value, ast.Constant) and r.value.value is False
                         and has_cond(conds(gj, r), lambda t: isinstance(t, ast.Name) and t.id in bnames, False)]
     rep.check('R17.b', fkey(gj, 'empty'), bool(rets_false_empty),
               'empty input returns False before any indexing' if rets_false_empty else
               'no early "return False" for empty input (indexing an empty value is not guarded)', simple, gj.node)
-    # the caller side: render_response sniffs
-    rr = simple.func('BasicRender.render_response')
-    ctx_param = [p for p in rr.params() if p != 'self'][0]
-    rr_conf = []
-    for n in walk_body(rr.node):
-        if isinstance(n, (ast.Compare, ast.Call)):
-            st_conds = conds(rr, n)
-            if has_cond(st_conds, lambda t: isinstance_test(t, ctx_param, 'bytes'), True) or \
-                    (isinstance(n, ast.Compare) and _under_bytes_if(rr, n, ctx_param)):
-                for x, why in type_confusions([ast.Expr(value=n)], {ctx_param}):
-                    rr_conf.append((x, why))
-    for x, why in rr_conf:
-        rep.fail('R17.b', fkey(rr, x), why, simple, x)
-    if not rr_conf:
-        rep.ok('R17.b', fkey(rr), 'sniffing tests on the bytes context are type-consistent', simple, rr.node)
-
-    # ---- R17.c -----------------------------------------------------------
-    rep.rule('R17.c', 'each Response label is dominated by its classification test; order str->bytes->Sized')
-    labelled = []   # (statement at which the label is decided, the Response(...) call, mimetype)
-    for r in returns_of(rr):
-        v = r.value
-        if isinstance(v, ast.Call) and call_tail(v) == 'Response':
-            mt = kwarg(v, 'mimetype')
-            if isinstance(mt, ast.Constant):
-                labelled.append((r, v, mt.value))
-            elif isinstance(mt, ast.Name):
-                # label chosen earlier:  mimetype = "text/html" ... return Response(context, mimetype=mimetype)
-                asg = [s for s in stmts_of(rr.node) if isinstance(s, ast.Assign) and norm(s.targets[0]) == mt.id]
-                if asg and all(isinstance(s.value, ast.Constant) and isinstance(s.value.value, str) for s in asg):
-                    for s in asg:
-                        labelled.append((s, v, s.value.value))
-                else:
-                    labelled.append((r, v, None))
-            else:
-                labelled.append((r, v, None))
-    is_gj = lambda t: isinstance(t, ast.Call) and call_tail(t) == '_guess_json'
-    is_html = lambda t: isinstance(t, ast.Compare) and isinstance(t.ops[0], ast.In) and \
-        isinstance(t.left, ast.Constant) and isinstance(t.left.value, bytes) and b'html' in t.left.value.lower()
-    is_bytes = lambda t: isinstance_test(t, ctx_param, 'bytes')
-    is_sized = lambda t: isinstance_test(t, ctx_param, 'Sized')
-    for r, v, mt in labelled:
-        cs = conds(rr, r)
-        first = norm(v.args[0]) if v.args else ''
-        if mt == 'application/json':
-            ok = has_cond(cs, is_gj, True) and has_cond(cs, is_bytes, True)
-            why = 'label application/json requires isinstance(bytes) and _guess_json(...) to be true'
-        elif mt == 'text/html':
-            ok = has_cond(cs, is_html, True) and has_cond(cs, is_gj, False) and has_cond(cs, is_bytes, True)
-            why = 'label text/html requires the <html sniff true and _guess_json false'
-        elif mt == 'text/plain' and first == ctx_param:
-            ok = has_cond(cs, is_html, False) and has_cond(cs, is_gj, False) and has_cond(cs, is_bytes, True)
-            why = 'label text/plain for bytes requires both sniffs false'
-        elif mt == 'text/plain':
-            ok = has_cond(cs, is_sized, False) and has_cond(cs, is_bytes, False)
-            why = 'stringified text/plain is for non-Sized, non-bytes values only'
-            # the stringifier must be a bound builtin conversion of the context
-            a0 = v.args[0] if v.args else None
-            # (whether the conversion callable is *bound* is R17.a's business)
-            good = (isinstance(a0, ast.Call) and isinstance(a0.func, ast.Name) and a0.args and norm(a0.args[0]) == ctx_param) \
-                or (isinstance(a0, (ast.JoinedStr, ast.BinOp)) and ctx_param in [n.id for n in ast.walk(a0) if isinstance(n, ast.Name)])
-            rep.check('R17.c', fkey(rr, 'stringify'), good,
-                      'non-Sized value is rendered as text: %s' % short(a0) if good else
-                      'non-Sized branch hands a non-text value to Response: %s' % short(a0), simple, r)
-        else:
-            ok, why = False, 'unexpected mimetype label %r' % (mt,)
-        rep.check('R17.c', fkey(rr, 'label %s %s' % (mt, 'bytes' if first == ctx_param else 'other')), ok,
-                  (why + ' -- holds (%s)' % '; '.join(cond_texts(cs))) if ok else
-                  (why + '; conditions at this return: %s' % '; '.join(cond_texts(cs))), simple, r)
-    mts = set((mt, norm(v.args[0]) == ctx_param if v.args else False) for r, v, mt in labelled)
-    need = {('application/json', True), ('text/html', True), ('text/plain', True), ('text/plain', False)}
-    rep.check('R17.c', fkey(rr, 'labels'), need <= set(mts),
-              'all four labelled returns present' if need <= set(mts) else 'missing labelled returns: %r' % sorted(need - set(mts), key=str),
-              simple, rr.node)
-    # str is encoded before the bytes classification
-    enc = [s for s in stmts_of(rr.node) if isinstance(s, ast.Assign) and len(s.targets) == 1 and norm(s.targets[0]) == ctx_param
-           and isinstance(s.value, ast.Call) and call_tail(s.value) == 'encode' and norm(s.value.func.value) == ctx_param]
-    bytes_ifs = [s for s in stmts_of(rr.node) if isinstance(s, ast.If) and is_bytes(s.test)]
-    cfg = cfg_of(rr)
-    ok = bool(enc) and bool(bytes_ifs) and \
-        has_cond(conds(rr, enc[0]), lambda t: isinstance_test(t, ctx_param, 'str'), True) and \
-        all(set(cfg.nodes_of(b)) & cfg.reach(cfg.nodes_of(enc[0])) for b in bytes_ifs) and \
-        not (set(cfg.nodes_of(enc[0])) & cfg.reach(cfg.nodes_of_all(bytes_ifs), include_src=False))
-    rep.check('R17.c', fkey(rr, 'encode-before-classify'), ok,
-              'str contexts are encoded (under isinstance(str)) and then flow into the bytes classification' if ok else
-              'text is not encoded before the bytes classification (str results would skip the sniffing)', simple,
-              enc[0] if enc else rr.node)
-    # everything else -> _serialize_to_resp
-    ser_rets = [r for r in returns_of(rr) if isinstance(r.value, ast.Call) and call_tail(r.value) == '_serialize_to_resp']
-    ok = bool(ser_rets) and all(has_cond(conds(rr, r), is_sized, True) or not has_cond(conds(rr, r), is_sized, False) for r in ser_rets) \
-        and all(has_cond(conds(rr, r), is_bytes, False) for r in ser_rets)
-    rep.check('R17.c', fkey(rr, 'serialize'), ok,
-              'Sized non-bytes contexts are handed to _serialize_to_resp' if ok else
-              '_serialize_to_resp is not the continuation for Sized non-bytes contexts', simple, ser_rets[0] if ser_rets else rr.node)
-    # all paths of render_response end in a return of a call (Response / renderer)
-    bad = [r for r in returns_of(rr) if not isinstance(r.value, ast.Call)]
-    falls_off = cfg.exit in cfg.reach([cfg.entry], avoid=set(cfg.nodes_of_all(returns_of(rr))), normal_only=True)
-    rep.check('R17.c', fkey(rr, 'returns'), not bad and not falls_off,
-              'every normal path returns a constructed response' if not bad and not falls_off else
-              'a path returns a non-call value or falls off the end (None)', simple, rr.node)
-    # _serialize_to_resp branches
-    sr = simple.func('BasicRender._serialize_to_resp')
-    want_map = {'application/json': 'json_render', 'text/html': 'tabular_render'}
-    for r in returns_of(sr):
-        v = r.value
-        if isinstance(v, ast.Call) and call_tail(v) in ('json_render', 'tabular_render'):
-            cs = conds(sr, r)
-            mimes = [t.comparators[0].value for t, p in cs if p is True and isinstance(t, ast.Compare)
-                     and isinstance(t.ops[0], ast.Eq) and isinstance(t.comparators[0], ast.Constant)]
-            ok = len(mimes) == 1 and want_map.get(mimes[0]) == call_tail(v)
-            rep.check('R17.c', fkey(sr, 'branch ' + call_tail(v)), ok,
-                      '%s serves %s' % (call_tail(v), mimes) if ok else
-                      '%s is returned under mime test %r (expected %s)' % (call_tail(v), mimes,
-                                                                              [k for k, x in want_map.items() if x == call_tail(v)]),
-                      simple, r)
-    rep.floor('R17.c', 9)
-
-    # ---- R17.d -----------------------------------------------------------
-    rep.rule('R17.d', 'TypeError from the encoder only when dev_mode is false; shipped renderers are dev-mode')
-    de = simple.func('ClasticJSONEncoder.default')
-    is_dev = lambda t: norm(t) == 'self.dev_mode'
-    for r in raises_of(de):
-        if raise_type(r) == 'TypeError':
-            cs = conds(de, r)
-            ok = has_cond(cs, is_dev, False)
-            rep.check('R17.d', fkey(de, 'raise TypeError'), ok,
-                      'raise is reachable only when self.dev_mode is false' if ok else
-                      'TypeError can be raised although dev_mode is true (conditions: %s)' % '; '.join(cond_texts(cs)),
-                      simple, r)
-    reprs = [r for r in returns_of(de) if isinstance(r.value, ast.Call) and call_name(r.value) == 'repr'
-             and has_cond(conds(de, r), is_dev, True)]
-    rep.check('R17.d', fkey(de, 'return repr'), bool(reprs),
-              'dev mode degrades unknown objects to repr(obj)' if reprs else
-              'no "return repr(obj)" under self.dev_mode', simple, de.node)
-    # default() never falls off the end
-    cfg_de = cfg_of(de)
-    falls = cfg_de.exit in cfg_de.reach([cfg_de.entry], avoid=set(cfg_de.nodes_of_all(returns_of(de))), normal_only=True)
-    rep.check('R17.d', fkey(de, 'total'), not falls, 'default() returns or raises on every path' if not falls else
-              'default() can fall off the end and return None', simple, de.node)
-    # conversions of the object that can fail on its *content* (decoding, parsing) must be attempts, like the
-    # dict()/list() attempts next to them: an unguarded one turns "degrade to repr" into an exception
-    from .common import protected_by
-    n_att = 0
-    for c in walk_body(de.node):
-        if isinstance(c, ast.Call) and (call_tail(c) in ('decode', 'loads', 'fromhex', 'unhexlify', 'b64decode') or
-                                        (isinstance(c.func, ast.Name) and c.func.id in ('dict', 'list', 'int', 'float', 'tuple', 'set'))):
-            n_att += 1
-            h = protected_by(de, c, 'ValueError')
-            ok = h is not None and not any(isinstance(x, ast.Raise) for x in ast.walk(h))
-            rep.check('R17.d', fkey(de, c), ok, 'conversion attempt %s is guarded (falls through to the next strategy)' % short(c, 40) if ok else
-                      'conversion %s in ClasticJSONEncoder.default is unguarded: a value it cannot convert (e.g. non-UTF-8 bytes) raises '
-                      'instead of degrading' % short(c, 60), simple, c)
-    if n_att < 2:
-        raise AnalysisError('ClasticJSONEncoder.default: conversion attempts not found')
-    # construction sites
-    def const_kw(call, name):
-        v = kwarg(call, name)
-        return v.value if isinstance(v, ast.Constant) else None
-    br_init = simple.func('BasicRender.__init__')
-    pops = [c for c in walk_body(br_init.node) if isinstance(c, ast.Call) and call_tail(c) == 'pop' and c.args
-            and isinstance(c.args[0], ast.Constant) and c.args[0].value == 'dev_mode']
-    ok = len(pops) == 1 and len(pops[0].args) == 2 and isinstance(pops[0].args[1], ast.Constant) and pops[0].args[1].value is True
-    rep.check('R17.d', fkey(br_init, "kwargs.pop('dev_mode')"), ok, 'BasicRender defaults to dev_mode=True' if ok else
-              'BasicRender no longer defaults dev_mode to True', simple, br_init.node)
-    jr_in_br = [c for c in walk_body(br_init.node) if isinstance(c, ast.Call) and call_tail(c) == 'JSONRender']
-    ok = bool(jr_in_br) and all(norm(kwarg(c, 'dev_mode')) == 'self.dev_mode' for c in jr_in_br)
-    rep.check('R17.d', fkey(br_init, 'JSONRender(dev_mode=self.dev_mode)'), ok,
-              'BasicRender builds its JSONRender with its own dev_mode' if ok else 'BasicRender does not forward dev_mode to JSONRender',
-              simple, br_init.node)
-    jr_init = simple.func('JSONRender.__init__')
-    enc_calls = [c for c in walk_body(jr_init.node) if isinstance(c, ast.Call) and call_tail(c) == 'ClasticJSONEncoder']
-    ok = bool(enc_calls) and all(norm(kwarg(c, 'dev_mode')) in ('self.dev_mode', 'dev_mode') for c in enc_calls)
-    rep.check('R17.d', fkey(jr_init, 'ClasticJSONEncoder(dev_mode=...)'), ok,
-              'JSONRender forwards dev_mode to its encoder' if ok else 'JSONRender does not forward dev_mode to the encoder',
-              simple, jr_init.node)
-    # every encoder / JSON renderer constructed by a renderer class forwards the renderer's dev_mode
-    # (a subclass that rebuilds self.json_encoder without it silently leaves dev mode)
-    for q, fi_ in sorted(simple.functions.items()):
-        if fi_.cls is None or q in ('JSONRender.__init__', 'BasicRender.__init__'):
-            continue
-        for c in walk_body(fi_.node):
-            if isinstance(c, ast.Call) and call_tail(c) in ('ClasticJSONEncoder', 'JSONRender', 'JSONPRender'):
-                dv = kwarg(c, 'dev_mode')
-                ok = dv is not None and norm(dv) in ('self.dev_mode', 'dev_mode', 'True')
-                rep.check('R17.d', fkey(fi_, c), ok, 'encoder/renderer constructed with the instance\'s dev_mode' if ok else
-                          '%s constructs %s without forwarding dev_mode: unknown objects raise TypeError instead of degrading to repr'
-                          % (q, call_tail(c)), simple, c)
-    # and nobody re-binds the encoder of a renderer after construction
-    for q, fi_ in sorted(simple.functions.items()):
-        for s in stmts_of(fi_.node):
-            if isinstance(s, ast.Assign) and norm(s.targets[0]) == 'self.json_encoder' and q != 'JSONRender.__init__':
-                v = s.value
-                ok = isinstance(v, ast.Call) and kwarg(v, 'dev_mode') is not None and norm(kwarg(v, 'dev_mode')) in ('self.dev_mode', 'dev_mode')
-                rep.check('R17.d', fkey(fi_, 'self.json_encoder'), ok, 're-bound encoder keeps dev_mode' if ok else
-                          '%s re-binds self.json_encoder without dev_mode' % q, simple, s)
-    enc_init = simple.func('ClasticJSONEncoder.__init__')
-    sets = [s for s in stmts_of(enc_init.node) if isinstance(s, ast.Assign) and norm(s.targets[0]) == 'self.dev_mode']
-    ok = len(sets) == 1 and isinstance(sets[0].value, ast.Call) and call_tail(sets[0].value) == 'pop' and \
-        isinstance(sets[0].value.args[0], ast.Constant) and sets[0].value.args[0].value == 'dev_mode'
-    rep.check('R17.d', fkey(enc_init, 'self.dev_mode'), ok, 'encoder takes dev_mode from its keyword' if ok else
-              'encoder no longer stores the dev_mode keyword', simple, enc_init.node)
-    for name, want_dev in (('render_basic', None), ('render_json_dev', True)):
-        vals = simple.assigns.get(name, [])
-        ok = len(vals) == 1 and isinstance(vals[0], ast.Call)
-        if ok and want_dev is True:
-            ok = const_kw(vals[0], 'dev_mode') is True
-        if ok and name == 'render_basic':
-            ok = call_name(vals[0]) == 'BasicRender' and kwarg(vals[0], 'dev_mode') is None
-        rep.check('R17.d', '%s::%s' % (SIMPLE, name), ok, '%s is constructed in dev mode' % name if ok else
-                  '%s is not constructed in dev mode' % name, simple, vals[0] if vals else None)
-    tj = errors.func('HTTPException.to_json')
-    encs = [c for c in walk_body(tj.node) if isinstance(c, ast.Call) and call_tail(c) == 'ClasticJSONEncoder']
-    ok = bool(encs) and all(const_kw(c, 'dev_mode') is True for c in encs)
-    rep.check('R17.d', fkey(tj, 'ClasticJSONEncoder'), ok, 'error JSON is encoded in dev mode (never raises on odd details)' if ok else
-              'HTTPException.to_json does not use a dev-mode encoder', errors, tj.node)
-
-    # ---- R17.e -----------------------------------------------------------
-    rep.rule('R17.e', '_format_mime_map, _default_mime and the branches of _serialize_to_resp agree')
-    br = simple.cls('BasicRender')
-    try:
-        fmm = repo.fold(br.class_attrs['_format_mime_map'], simple)
-        dm = repo.fold(br.class_attrs['_default_mime'], simple)
-    except Exception as e:
-        raise AnalysisError('cannot fold BasicRender format tables: %s' % e)
-    branch_mimes = set()
-    mime_vars = set(norm(s.targets[0]) for s in stmts_of(sr.node) if isinstance(s, ast.Assign) and '_format_mime_map' in norm(s.value))
-    for n in walk_body(sr.node):
-        if isinstance(n, ast.Compare) and norm(n.left) in mime_vars and isinstance(n.ops[0], ast.Eq) \
-                and isinstance(n.comparators[0], ast.Constant):
-            branch_mimes.add(n.comparators[0].value)
-    for fmt, mime in sorted(fmm.items()):
-        rep.check('R17.e', '%s::BasicRender._format_mime_map[%s]' % (SIMPLE, fmt), mime in branch_mimes,
-                  'format %r -> %r has a serving branch' % (fmt, mime) if mime in branch_mimes else
-                  'format %r maps to %r which no branch of _serialize_to_resp serves' % (fmt, mime), simple, sr.node)
-    rep.check('R17.e', '%s::BasicRender._default_mime' % SIMPLE, dm in fmm.values() and dm in branch_mimes,
-              'default mime %r is a supported, served format' % dm if dm in fmm.values() and dm in branch_mimes else
-              'default mime %r is not among the served formats %r' % (dm, sorted(branch_mimes)), simple, sr.node)
-    # unsupported explicit format is rejected with ValueError (documented escape hatch), never mis-served
-    rz = [r for r in raises_of(sr) if raise_type(r) == 'ValueError']
-    rep.check('R17.e', fkey(sr, 'unsupported format'), bool(rz), 'unsupported ?format= is rejected explicitly' if rz else
-              'unsupported ?format= values are no longer rejected', simple, sr.node)
-    rep.floor('R17.e', 3)
-    # JSON renderer labels
-    for q, want in (('JSONRender.__call__', 'application/json'), ('JSONPRender.__call__', 'application/javascript')):
-        f = simple.func(q)
-        mts = [kwarg(c, 'mimetype') for c in walk_body(f.node) if isinstance(c, ast.Call) and call_tail(c) == 'Response']
-        ok = bool(mts) and all(isinstance(m, ast.Constant) and m.value == want for m in mts)
-        rep.check('R17.e', fkey(f, 'mimetype'), ok, '%s labels its body %s' % (q, want) if ok else
-                  '%s does not label its body %s' % (q, want), simple, f.node)
 
 
 def _is_start(e):
@@ -481,16 +1908,4 @@ def _is_end(e):
             return s.upper is None and isinstance(s.lower, ast.UnaryOp) and isinstance(s.lower.op, ast.USub) \
                 and isinstance(s.lower.operand, ast.Constant) and s.lower.operand.value == 1
         return isinstance(s, ast.UnaryOp) and isinstance(s.op, ast.USub) and isinstance(s.operand, ast.Constant) and s.operand.value == 1
-    return False
-
-
-def _under_bytes_if(fi, node, var):
-    """node is (part of) the test of an if/elif nested in the body of ``if isinstance(var, bytes)``."""
-    cur = node
-    mod = fi.mod
-    while cur is not None and cur is not fi.node:
-        par = mod.parents.get(cur)
-        if isinstance(par, ast.If) and isinstance_test(par.test, var, 'bytes') and cur in par.body:
-            return True
-        cur = par
     return False
